@@ -12,983 +12,2645 @@ Definition show_fres (r : fres) : string :=
   end.
 Definition check (rs : list rune) : string := digest (show_fres (format_res rs)).
 Definition full (rs : list rune) : string := show_fres (format_res rs).
-Eval vm_compute in ("<<<M1575>>>" ++ check (runes_of_ascii "options {
-    ArrayPrefixLenType = u16;
-    FixedStringPadFromLeft = true;
-    JavaPackage = ""co\
-m.example.msg"";
-    GoPackage = ""ms\
-g"";
-    GoModule = ""example.com/msg"";
+Eval vm_compute in ("<<<M3918>>>" ++ check (runes_of_ascii "packet i8i8 {
+    string string_ `crlf
+    line`,
+    pack,
+    As @calculatedFrom(""a	b""),
+    f32 body `tab	here`,
+    repeatCount @calculatedFrom(""" ++ [28040; 24687]%N ++ runes_of_ascii """),
+    char[255] packetx,
+    @calculatedFrom(""\" ++ [233]%N ++ runes_of_ascii """)
+    @calculatedFrom(""abc"")
+    @rightPad()
+    // @lengthOf(
+    x `two words`,
+    @calculatedFrom(""a	b"")
+    i32 stringy,
+    @rightPad()
+    Header `tab	here`,
 }
-MetaData Meta {
-    u32 SeqNum `sequence number`,
-    char[8] Symbol `symbol`,
-    zchar[5] ZSym `z symbol`,
-    string Note,
-    Symbol AltSymbol `alias of symbol`,
-    f64 Price,
+
+packet i64_ {
+    @rightPad()
+    char[10] i8i8,
+    u {
+        char[] roots @calculatedFrom(""a\\"") `it's`,
+    },
+    len charz,
+    float64 Z9_,
+    int64 asx @lengthOf(stringy) `doc`,
+    uint8 repeatCount,
+    uint16 i64_,
 }
-packet Inner {
-    u8 a,
-    i16 b,
-    string c,
+
+MetaData Header {
+    // c
 }
-packet Inner2 {
-    u8 a2,
-    char[3] c2,
+
+packet As {
+    match uint8x as tag {
+        [""CRC32"", ""it's"", 1, ""{,}"", """"] : charz,
+        """" : asx,
+    },//x
 }
-packet Logon {
-    u8 x,
-    string user,
-    repeat u16 codes,
-}
-packet Logout {
-    u16 reason,
-}
-packet Empty {
-}
-root packet Msg {
-    u8 su8,
-    uint8 luint8,
-    u16 su16,
-    uint16 luint16,
-    u32 su32,
-    uint32 luint32,
-    u64 su64,
-    uint64 luint64,
-    i8 si8,
-    int8 lint8,
-    i16 si16,
-    int16 lint16,
-    i32 si32,
-    int32 lint32,
-    i64 si64,
-    int64 lint64,
-    f32 sf32,
-    float32 lfloat32,
-    f64 sf64,
-    float64 lfloat64,
-    char[6] fsplain,
-    @leftPad('0') char[4] fs0,
-    @rightPad('0') char[5] fs1,
-    @leftPad(' ') char[6] fs2,
-    @rightPad(' ') char[7] fs3,
-    @leftPad('\x00') char[8] fs4,
-    @rightPad('\x00') char[9] fs5,
-    @leftPad() char[10] fs6,
-    @rightPad() char[11] fs7,
-    zchar[7] fz,
-    @leftPad('0') zchar[3] fzl0,
-    string s1 `doc`,
-    char[] s2,
-    Inner,
-    Sub {
-        u8 q,
-        string w,
-        Deep {
-            u16 z,
-            repeat i32 zs,
+
+packet lengthOf {
+    string_ @lengthOf(f32a) `say ""hi""`,
+    @leftPad()
+    char[] matchKey,
+    repeat float32 Packet `crlf
+    line`,
+    @tag(255)
+    float {
+        repeat x {
+            int,
+            int16 Packet @calculatedFrom(""""),
         },
+        trueish {
+            match calculatedFrom as matchKey {
+                [10] : Foo,
+                ""\n"" : MetaDataX,
+            },
+            u16 options1 `line1
+            line2`,
+        },
+        a1 crc `{ , }`,
+        repeat zchar ``,
     },
-    repeat u8 ru8,
-    repeat u16 ru16,
-    repeat u32 ru32,
-    repeat u64 ru64,
-    repeat i8 ri8,
-    repeat i16 ri16,
-    repeat i32 ri32,
-    repeat i64 ri64,
-    repeat f32 rf32,
-    repeat f64 rf64,
-    repeat string rstr,
-    repeat char[] rstr2,
-    repeat char[3] rfs,
-    repeat zchar[3] rfz,
-    repeat Inner2,
-    repeat Grp {
-        u8 k,
-        char[2] v,
-    },
-    SeqNum,
-    SeqNum seq2,
-    repeat SeqNum seqs,
-    Symbol,
-    AltSymbol alt,
-    ZSym,
-    Note,
-    repeat Symbol syms,
-    Price px,
-    u16 MsgType,
-    u32 BodyLen @lengthOf(Body),
-    match MsgType as Body {
-        1 : Logon,
-        [2, 3] : Logout,
-        7 : Logon,
-        9 : Empty,
-    },
-    u32 Checksum @calculatedFrom(""CRC32""),
-}
-")).
-Eval vm_compute in ("<<<M120>>>" ++ check (runes_of_ascii "root packet // c
-falsey { roots { repeat x_y_z ,
-} , char[] T `
-` , char[	3 ]T/// triple
-,zchar { repeat
-zchar[ 65535 ]
-    rootA  `tab	here`
-    , int32 leftPad , }
-,
-// packet A { u8 x, }
-// `tick` ""quote"" 'q'
-repeat
-    Packet
+    // 50% %s
     //	t
-    ,repeat
-char[ 00 ] body`" ++ [233]%N ++ runes_of_ascii "` , @tag(
-00// @lengthOf(
-) a1 i64_
-, i8i8 BodyLength `{ , }`
-    , match
-    crc as u8x
-// a // b
-//	t
-{ [
-    // `tick` ""quote"" 'q'
-    0 ]:
-    matchKey , [ 0123456789,
-""a\\""
-,
-""abc"" ]:As , """ ++ [128512]%N ++ runes_of_ascii """ : tag, 7 :
-    u8x , 42 : f32a 00 :options1 } // trailing space 
-,} packet// " ++ [27880; 37322]%N ++ runes_of_ascii "
-MetaDataX{@tag( 42)@leftPad ( ) @leftPad
-    //x
-    ( )  body i64_ , } packet int{ @calculatedFrom(
-// " ++ [27880; 37322]%N ++ runes_of_ascii "
-//
-""" ++ [233]%N ++ runes_of_ascii "t" ++ [233]%N ++ runes_of_ascii """)
-@tag(42 ) @leftPad	( '\x00' ) repeat u8x ,  repeat len , @tag(	255	)match calculatedFrom as Z9_ {  ""CRC32"" :	len,""packet"" : falsey, [65535,
-42//x
-]// @lengthOf(
-: charz ,
-} // @lengthOf(
-,i8i8 ,match
-i8i8
-    as Foo // trailing space 
-{ ""a\\"" : x , } , @leftPad
-( ) char crc `say ""hi""` ,
-} options {	Pad =
-    zchar[ // trailing space 
-0
-]; pack="""" // c
-;
-    } root
-    packet lengthOf
-{ @leftPad ('0' ) A
-    // trailing space 
-    @calculatedFrom(
-// " ++ [27880; 37322]%N ++ runes_of_ascii "
-//
-""\" ++ [233]%N ++ runes_of_ascii """),@calculatedFrom( ""abc""// c
-)  repeat// c
-char[] a1 ,repeat int  trueish  , @rightPad(
-    '\x00'
-    )// a // b
-zchar[4294967296 ] _x ,repeat
-stringy //
-x	,@tag( 00  ) @lengthOf( int )  @tag( 0) u8	T	,
-@tag(1 ) @lengthOf(
-a1 ) @calculatedFrom( ""it's"" ) char[ 10 ] body ,  @lengthOf( f32a )
-    rootA
-@calculatedFrom(""{,}"" ), // " ++ [128512]%N ++ runes_of_ascii " emoji
-} 	 ")).
-Eval vm_compute in ("<<<M350>>>" ++ check (runes_of_ascii "packet
-matchKey
-    {	zchar[ 3
-    ]
-// `tick` ""quote"" 'q'
-// packet A { u8 x, }
-A,msg_type
-`a\` , MetaDataX As  , @lengthOf(
-    Z9_ )repeat
-    f32 _x ,
-    @lengthOf(Pad ) uint32 //	t
-Logon
-    , // a // b
-@tag( 4294967296 ) T	`doc` ,
-len  ,
-body { repeat
-    o { match i8i8 as	body{ 65535
-:lengthOf,
-[ ""\n"" ] : i64_ 3
-: asx , [
-""packet""
-,
-    /// triple
-    007	,
-""{,}""  , ""// no comment""
-] : repeatCount ,[ ""// no comment"",
-    7
-    ,	""\" ++ [233]%N ++ runes_of_ascii """, 0123456789 //
-, ""a\""b"" ] : roots
-} ,
-match repeatCount as As
-{ """"
-    /// triple
-    : //	t
-o ,
-    }
-, } , zchar[ 0 ]BodyLength `` ,
-    lengthOf,}, i16 Z9_ , } packet
-    tag { @tag(
-    // `tick` ""quote"" 'q'
-    1 ) repeat float i8i8`" ++ [28040; 24687; 31867; 22411]%N ++ runes_of_ascii "` // `tick` ""quote"" 'q'
-,  @rightPad ( )@lengthOf( _x) @rightPad ( // c
-'0'
-)
-Packet, Foo /// triple
-@lengthOf(
-    u128
-) `doc` ,
-@tag( 007 ) // packet A { u8 x, }
-string repeatCount , o {match leftPad as lengthOf {
-[
-    0123456789  ,
-""1"" ] :
-    x_y_z  , [ """ ++ [128512]%N ++ runes_of_ascii """] : i8i8
-, [// @lengthOf(
-""a\""b"" , ""a	b"" ]
-: Foo , [ ""\" ++ [233]%N ++ runes_of_ascii """ ] : Pad,
-    [ ""a	b"" , 42
-//
-//	t
-, """ ++ [233]%N ++ runes_of_ascii "t" ++ [233]%N ++ runes_of_ascii """ ,	3 ,	""" ++ [28040; 24687]%N ++ runes_of_ascii """,
-    00 ,
-7 ]  : packetx ,
-42
-    //x
-    : falsey,}
-,},}packet body
-{ }")).
-Eval vm_compute in ("<<<M1976>>>" ++ check (runes_of_ascii "options {
-    StringPrefixLenType = u64;
-    ArrayPrefixLenType = u16;
-    FixedStringPadChar = ' ';
-}
-
-packet Logon {
-    i32 msgKind,
-    repeat InOrderid65 {
-        u8 pad0,
-    },
-    i8 tag7,
-    @leftPad(' ')
-    char[12] x,
-}
-
-packet Leg {
-    char[] f1,
-    repeat char[5] Px,
-    InQty34 {
-        repeat char[6] Qty,
-        char[7] seqNo,
-        string count,
-    },
-    Logon,
-}
-
-packet Party {
+    @tag(4294967296)
+    @tag(007)
+    @calculatedFrom("""")
+    i16 _x ``,
     @leftPad('0')
-    char[10] OrderId,
-    string Tail,
-}
-
-packet Fill {
-    zchar[5] venue,
-    zchar[3] clOrdID,
-    InRef95 {
-        InLastpx25 {
-            u8 pad0,
+    repeat uint16 roots,
+    repeat stringy {
+        Header {
+            // @lengthOf(
+            // " ++ [27880; 37322]%N ++ runes_of_ascii "
+            i16 As @calculatedFrom(""\" ++ [233]%N ++ runes_of_ascii """) ``,
+            x {
+                repeat zchar[007] asx,
+                match Packet as string_ {
+                    007 : chars,
+                    [
+                        ""\" ++ [233]%N ++ runes_of_ascii """, 255, """ ++ [28040; 24687]%N ++ runes_of_ascii """, 42, 00,
+                        ""\" ++ [233]%N ++ runes_of_ascii """, ""abc"", 007
+                    ] : leftPad,
+                    42 : metadata,
+                    [""" ++ [28040; 24687]%N ++ runes_of_ascii """, ""\n""] : T,
+                    3 : repeatCount,
+                },
+                char[4294967296] MetaDataX,
+                i64 f32a,
+            },
         },
-        float64 OrderId,
-        i32 f1,
-        float32 x,
-        char[] seqNo,
+        repeat int32 msg_type,
+        // a // b
     },
-    repeat string seqNo,
-}
-
-root packet Heartbeat {
-    repeat Leg,
-    u32 seqNo,
-    u16 tag7,
-    u32 Flags @lengthOf(Body),
-    match tag7 as Body {
-        [195, 75] : Party,
-        171 : Fill,
-        78 : Logon,
-        142 : Leg,
-    },
-    u32 Note @calculatedFrom(""CRC32""),
+    @lengthOf(charz)
+    // " ++ [27880; 37322]%N ++ runes_of_ascii "
+    trueish leftPad `doc`,
+    @lengthOf(f32a)
+    T u ``,
+    @leftPad('\x00')
+    u8 x_y_z @lengthOf(T) `two words`,
 }")).
-Eval vm_compute in ("<<<M211>>>" ++ check (runes_of_ascii "packet f32a
-    { @calculatedFrom(""1"" )
-_x { string
-/// triple
-//	t
-metadata@calculatedFrom( ""`tick`""	) `// not a comment` ,  match // packet A { u8 x, }
-Foo as  len { 42//
-:Z9_ , //x
-}  , }
-,} packet /// triple
-options1{ @lengthOf(A )roots
-@lengthOf(// packet A { u8 x, }
-msg_type ) `line1
-line2` , int32/// triple
-a1 `it's` , @calculatedFrom( ""packet""
-    )repeat string T , @lengthOf( i64_ ) @calculatedFrom(
-""packet""
-) @tag( 007
-) int16 asx@calculatedFrom(
-""it's""
-    )//	t
-`doc` , repeat i32
-charz, metadata // packet A { u8 x, }
-`// not a comment` , }  packet
-Logon{ }
-options {
-}
-root
-packet tag  { @lengthOf(
-    Logon
-)
-charz { string stringy`// not a comment`	,
-uint64 int,char
-    i64_ `it's`
-// packet A { u8 x, }
-// a // b
-, } ,
-//	t
-//
-u8
-i64_ , zchar[ 1 ] float
-, } /// triple")).
-Eval vm_compute in ("<<<M1839>>>" ++ check (runes_of_ascii "MetaData	metadata 
-{	// `tick` ""quote"" 'q'
-	msg_type
-    Pad
-,
-int8
-
-calculatedFrom,
-}  MetaData
-
-msg_type {// packet A { u8 x, }
-	} packet// a // b
-	len
-    {_x  ,	}
-	options
-
-    {
-	As	=  
-  // a // b
-// c
-	true 
-;// " ++ [27880; 37322]%N ++ runes_of_ascii "
-
-repeatCount
-
-= '\x00'; uint8x// packet A { u8 x, }
-  = 
-""\" ++ [233]%N ++ runes_of_ascii """
-
-    ;	chars 
-= true ; } 
-        // " ++ [27880; 37322]%N ++ runes_of_ascii "
-
-// `tick` ""quote"" 'q'
-  packet crc{matchKey@lengthOf(
-
-    float
-	), @leftPad	(
-
-    '0' )  match
-
-    i8i8 as
-    x
-    {	[	// " ++ [128512]%N ++ runes_of_ascii " emoji
-
-	65535
-, 
-	// trailing space 
-	10  ,
-    4294967296
-	]  :
-    repeatCount
-,  ""// no comment"" 
-:stringy
-    ,
-
-}
-,
-@calculatedFrom(""a	b"") crc 
-        // " ++ [27880; 37322]%N ++ runes_of_ascii "
-  // trailing space 
-  ,
-/// triple
-	  }
-
-")).
-Eval vm_compute in ("<<<M269>>>" ++ check (runes_of_ascii "// trailing space 
+Eval vm_compute in ("<<<M3461>>>" ++ check (runes_of_ascii "// top
+options // c0a
+  // c0b
+{
+    // c1
+LittleEndian // c2
+= // c3a
+  // c3b
+false // c4
+; StringPrefixLenType // c6
+= // c7
+u32 // c8
+; // c9
+ArrayPrefixLenType // c10
+= // c11a
+  // c11b
+u32 ;
+    // c13
+FixedStringPadChar // c14a
+  // c14b
+=
+    // c15
+' ' // c16a
+  // c16b
+; // c17a
+  // c17b
+} // c18
 packet
-// packet A { u8 x, }
-// packet A { u8 x, }
-o {
-@calculatedFrom(
-""`tick`""
+    // c19
+Order
+    // c20
+{ InX16 { // c23
+i64
+    // c24
+Tail // c25
+, // c26a
+  // c26b
+char[
+    // c27
+4 // c28a
+  // c28b
+] // c29a
+  // c29b
+price ,
+    // c31
+repeat // c32
+char[ // c33
+4 ] // c35
+Qty // c36a
+  // c36b
+, // c37
+} // c38a
+  // c38b
+,
+    // c39
+InSym89 // c40
+{ int8
+    // c42
+x
+    // c43
+, // c44a
+  // c44b
+char[
+    // c45
+8
+    // c46
+] // c47
+clOrdID
+    // c48
+, i32 tag7 // c51
+, // c52
+char[ 7
+    // c54
+]
+    // c55
+venue // c56a
+  // c56b
+, int64 // c58
+Ref // c59
+, // c60
+} // c61
+, // c62
+zchar[ // c63
+7 // c64
+]
+    // c65
+Flags // c66a
+  // c66b
+, }
+    // c68
+packet // c69
+Logon
+    // c70
+{ zchar[ // c72a
+  // c72b
+3 // c73
+] // c74
+sym // c75a
+  // c75b
+, } // c77
+packet // c78a
+  // c78b
+Leg // c79
+{
+    // c80
+InCount34 // c81a
+  // c81b
+{
+    // c82
+char[ // c83a
+  // c83b
+10 // c84a
+  // c84b
+] OrderId , // c87a
+  // c87b
+} // c88
+, // c89a
+  // c89b
+} packet Party { // c93
+} // c94
+root packet // c96
+Ack // c97
+{ repeat
+    // c99
+Leg
+    // c100
+,
+    // c101
+char[ // c102
+8 // c103a
+  // c103b
+] // c104a
+  // c104b
+Flags
+    // c105
+,
+    // c106
+u8 // c107
+seqNo
+    // c108
+, // c109a
+  // c109b
+u16 // c110
+Qty
+    // c111
+@lengthOf( // c112a
+  // c112b
+Body ) // c114a
+  // c114b
+,
+    // c115
+match // c116a
+  // c116b
+seqNo as Body
+    // c119
+{ // c120
+21 : // c122a
+  // c122b
+Order , // c124
+56 :
+    // c126
+Logon ,
+    // c128
+138
+    // c129
+: // c130a
+  // c130b
+Leg
+    // c131
+, // c132a
+  // c132b
+73 : // c134a
+  // c134b
+Party , } ,
+    // c138
+} ")).
+Eval vm_compute in ("<<<M1176>>>" ++ check (runes_of_ascii "root packet  metadata {T @calculatedFrom(	""x y""
+) ,	@lengthOf( u8x
+)
+crc @lengthOf(
+    i8i8 ) `
+`,char[00
+    ] matchKey ,
+    f64
+_x
+    ,	@lengthOf(trueish ) @calculatedFrom(
+""// no comment""
+) chars `two words` , repeatCount`tab	here` ,
+    uint32 Foo
+    @lengthOf(
     //	t
-    )repeat i8 rootA
-, @calculatedFrom( ""`tick`""	)Logon
-body`line1
-line2` , // " ++ [128512]%N ++ runes_of_ascii " emoji
-@lengthOf(crc )@tag( 0
-) repeat
-falsey string_ , @calculatedFrom(
-"""" )
-    lengthOf/// triple
-, u16 calculatedFrom ,
-    i8i8//x
-tag `two words` , @tag( 1)	string rootA`u8 x,`
-,match pack as int { [
-""" ++ [233]%N ++ runes_of_ascii "t" ++ [233]%N ++ runes_of_ascii """
-, ""\" ++ [233]%N ++ runes_of_ascii """	, 10 ,  0,
-4294967296 , ""packet"" ,""" ++ [28040; 24687]%N ++ runes_of_ascii """
-,""" ++ [233]%N ++ runes_of_ascii "t" ++ [233]%N ++ runes_of_ascii """ ] : int
-//x
-// trailing space 
-, 3
-    :zchar , """ ++ [128512]%N ++ runes_of_ascii """
-:
-options1, 00 // c
-:x_y_z , 4294967296 :
-chars , } ,float32 matchKey
+    string_ )	`` , @calculatedFrom(
+""\n"" )
+f64 Pad @lengthOf( i8i8 ) ,@lengthOf(
+    // " ++ [27880; 37322]%N ++ runes_of_ascii "
+    i8i8 ) x_y_z
+x ,  @calculatedFrom(
     //x
+    ""1"" )pack// c
+{ float64  leftPad
+    `tab	here`, repeat int
+{ match
+packetx as
+repeatCount { [// " ++ [128512]%N ++ runes_of_ascii " emoji
+""a\""b"" ,
+42 ] : repeatCount	, 3// packet A { u8 x, }
+: leftPad
+, ""it's"" : i8i8, ""packet""// @lengthOf(
+: x_y_z
+    ""`tick`"" : asx
+    ,3 :
+Foo
+,} , // `tick` ""quote"" 'q'
+i32
+    options1`u8 x,`
     ,
+// packet A { u8 x, }
+// packet A { u8 x, }
+body ,
+} , } ,
+} MetaData MetaDataX {	As chars
+,char[] u// " ++ [27880; 37322]%N ++ runes_of_ascii "
+,len calculatedFrom
+    // c
+    , asx  i64_ , // 50% %s
+}packet
+leftPad { trueish
+    { repeat
+char[]packetx
+    ,
+    // a // b
+    }
+    , repeat // c
+As {
+    u32 u@lengthOf( A ) `{ , }` //	t
+, }
+    ,@lengthOf(Packet )
+    repeat
+    i32
+    Logon
+`
+` , uint16 lengthOf
+@lengthOf(
+BodyLength )`100% of %d`,
+match repeatCount
+as
 T
+{ ""a\\""
+:int ,
+// @lengthOf(
+//
+007
+    // " ++ [128512]%N ++ runes_of_ascii " emoji
+    :	lengthOf ,10 : Logon
+    ,//	t
+} ,i16 len
+    /// triple
+    @calculatedFrom( ""`tick`"" ) ,
+    //x
+    uint16 uint8x	@calculatedFrom(
+    ""// no comment""//	t
+)
+`
+` , @tag(
+255 ) repeat int32 int`tab	here`
+,Pad { repeat chars`` ,
+    // a // b
+    } , @tag( 007 )	repeat  stringy	{ string chars ,string_ chars , }
+    ,
+}")).
+Eval vm_compute in ("<<<M1072>>>" ++ check (runes_of_ascii "MetaData _x
+    {
+string Packet`// not a comment`
+    , o Logon
+    // " ++ [27880; 37322]%N ++ runes_of_ascii "
+    , packetx uint8x , } root
+// a // b
+// a // b
+packet MetaDataX { repeat char[255] // " ++ [128512]%N ++ runes_of_ascii " emoji
+x_y_z `doc` ,
+@calculatedFrom(	""{,}"" ) match
+    // " ++ [128512]%N ++ runes_of_ascii " emoji
+    asx as A // trailing space 
+{ 4294967296 : Pad 10
+    :a1 ,	}
+,
+zchar[ 3	] asx
+`{ , }` ,match
+msg_type as i8i8 { [
+    0
+    ,1
+    , 007
+    , ""a\\"", ""\" ++ [233]%N ++ runes_of_ascii """ ,65535 ]:
+    calculatedFrom ,
+    // 50% %s
+    007 // trailing space 
+:
+    T 255
+:repeatCount ,
+    [ // trailing space 
+0123456789
+    , ""it's""] : chars
+,}  , u128 ,	string A @lengthOf( Packet  ) `tab	here` ,
+    char[0123456789
+    ] // trailing space 
+uint8x
+@lengthOf(x_y_z
+) , asx
+`" ++ [28040; 24687; 31867; 22411]%N ++ runes_of_ascii "` , }
+packet a1{ i8 trueish , } packet matchKey
+{ match
+a1 as
+string_ { 10
+: pack
+// trailing space 
+// a // b
+, },
+// @lengthOf(
+// a // b
+char[ 10	]
+falsey `" ++ [233]%N ++ runes_of_ascii "`
+    ,pack{ i8i8 { repeat
+lengthOf {
+    //	t
+    tag asx , match
+rootA as matchKey // packet A { u8 x, }
+{ ""CRC32""
+    :
+    u 42:lengthOf ,// c
+} ,
+repeat
+// packet A { u8 x, }
+// @lengthOf(
+uint64 packetx  `
+` ,	zchar[
+    0 ]/// triple
+options1 @lengthOf(
+Packet )
+`doc` ,} ,
+    } // trailing space 
+, } ,
+}
+// `tick` ""quote"" 'q'
+//
+MetaData  options1
+{
+    string_ // packet A { u8 x, }
+zchar,Z9_ repeatCount`crlf
+line` , uint64 Logon , uint64 a1 ,
+    string_ Foo ,
+}")).
+Eval vm_compute in ("<<<M349>>>" ++ check (runes_of_ascii "packet charz
+{ }
+root packet options1 {
+    @rightPad ( '0')match
+/// triple
+// 50% %s
+len // 50% %s
+as roots { 3: lengthOf // a // b
+, ""{,}"":
+MetaDataX
+// 50% %s
+// c
+, 65535 :
+    MetaDataX } , char[4294967296
+    //x
+    ]
+u128  ,uint32 x // a // b
+,
+    //x
+    @tag(007 )  x_y_z @calculatedFrom( ""packet""
+), zchar[ 255 ] Header @calculatedFrom( ""a	b"" ),  string
+leftPad
+, Z9_
+    x_y_z
+    `two words`
+, i8
+    x_y_z
+@lengthOf(
+    // 50% %s
+    MetaDataX  ) `" ++ [28040; 24687; 31867; 22411]%N ++ runes_of_ascii "`
+// " ++ [27880; 37322]%N ++ runes_of_ascii "
+// trailing space 
+, }MetaData
+msg_type {lengthOf msg_type /// triple
+`crlf
+line` , i64
+    // a // b
+    crc // c
+, packetx zchar `100% of %d` , string falsey`line1
+line2` ,} packet options1{
+repeat string
+u128 , // trailing space 
+repeat char[
+3 ]lengthOf ,
+zchar[ 00]stringy , @lengthOf(a1 )  @lengthOf(int) @calculatedFrom( ""{,}""
+    ) match
+    // `tick` ""quote"" 'q'
+    Foo as u8x {""it's"" :	charz [ 255 ] : u128, }, string x // trailing space 
+,
+match //x
+Packet as Logon
+    { //x
+""{,}"" : roots,
+// packet A { u8 x, }
+// `tick` ""quote"" 'q'
+""abc""
+:
+//	t
+// a // b
+zchar , /// triple
+[  1,
+""" ++ [128512]%N ++ runes_of_ascii """ , ""packet"",
+"""" , """" ,  42 , """"] : Z9_ ,
+} , u64 u @lengthOf(body )
+// " ++ [128512]%N ++ runes_of_ascii " emoji
+// 50% %s
+`it's`, } options {
+    uint8x
+    =
+0123456789 ; }")).
+Eval vm_compute in ("<<<M31>>>" ++ check (runes_of_ascii "root
+    packet body {
+    @calculatedFrom( ""a	b""	) repeat
+int32
+zchar
+, lengthOf body ,
+@rightPad
+( ' '
+    )uint8x { u64  body , } , @tag( 1 )
+@leftPad ( '0' ) @calculatedFrom( """ ++ [233]%N ++ runes_of_ascii "t" ++ [233]%N ++ runes_of_ascii """
+)
+    u64
+x @calculatedFrom( """ ++ [128512]%N ++ runes_of_ascii """
+// packet A { u8 x, }
+//x
+)
+    , x
+    , @lengthOf( u128 ) _x
+    T `` //	t
+, @rightPad	(
+'0' )  i64// trailing space 
+a1 , string
+trueish @calculatedFrom( ""// no comment""
+    ) `
+`, }packet
+    tag
+{ } MetaData body { T u
+    , string f32a  , f64
+Packet ,
+lengthOf Header `tab	here` ,
+    }
+// c
+//
+packet T // @lengthOf(
+{
+@leftPad( )chars	, @calculatedFrom( ""1""  )
+@lengthOf( tag) @lengthOf( Foo ) match charz as chars
+    { 42 :
+    // packet A { u8 x, }
+    uint8x , """ ++ [28040; 24687]%N ++ runes_of_ascii """ :o , 0123456789:
+    lengthOf
+,[
+    ""a\\"" ,
+""CRC32""
+    , ""a	b"" ,""CRC32""	, 0
+,""CRC32"" , ""a\\"", """" ] : T ""it's"" :
+    tag } //x
+, i8 roots, @lengthOf( float)
+@tag(10)body { chars// trailing space 
+{repeat
+int8 body ,
+}  , repeat
+    Header {char[]
+leftPad , } , /// triple
+match Logon as
+    // " ++ [128512]%N ++ runes_of_ascii " emoji
+    zchar {
+    4294967296
+: len  , ""a\""b"" // trailing space 
+: A 00:x_y_z ,  }
+,//	t
+repeat i16 options1,} ,
+    }options { }
+")).
+Eval vm_compute in ("<<<M3691>>>" ++ check (runes_of_ascii "packet uint8x {
+    calculatedFrom {
+        repeat options1 {
+            char[42] packetx,
+            len {
+                repeat _x `
+                                `,
+                int8 rootA @calculatedFrom(""abc"") `" ++ [28040; 24687; 31867; 22411]%N ++ runes_of_ascii "`,
+                MetaDataX @calculatedFrom(""\n"") `
+                                `,
+                match leftPad as zchar {
+                    [""// no comment"", 0, """ ++ [128512]%N ++ runes_of_ascii """, """ ++ [28040; 24687]%N ++ runes_of_ascii """] : MetaDataX,
+                    [""""] : stringy,
+                    42 : calculatedFrom,
+                    65535 : options1,
+                    //	t
+                    // " ++ [128512]%N ++ runes_of_ascii " emoji
+                },
+            },
+            f32 MetaDataX,//x
+        },
+        lengthOf Foo,
+    },
+    @rightPad(' ')
+    //
+    char[] options1 @calculatedFrom(""a\""b""),// 50% %s
+    @rightPad(' ')
+    @tag(00)
+    match matchKey as msg_type {
+        [""1""] : tag,
+    },
+    zchar[00] a1 @lengthOf(asx) ``,
+    char[007] A,//	t
+    Pad,
+    @leftPad('\x00')
+    @calculatedFrom(""a\\"")
+    @calculatedFrom(""{,}"")
+    repeat trueish {
+        MetaDataX @lengthOf(zchar),
+    },
+}")).
+Eval vm_compute in ("<<<M401>>>" ++ check (runes_of_ascii "// 50% %s
+packet u
+    { i16
+    falsey // a // b
+`doc`
+, repeat Pad
+`` ,
+repeat u64 uint8x ,	@lengthOf(_x )
+//
+// @lengthOf(
+i8
+trueish@calculatedFrom(""" ++ [128512]%N ++ runes_of_ascii """)
+, match BodyLength
+// " ++ [27880; 37322]%N ++ runes_of_ascii "
+// 50% %s
+as // " ++ [128512]%N ++ runes_of_ascii " emoji
+lengthOf {	0123456789  : u8x , // trailing space 
+7 : a1""CRC32""	: u128 , [
+0123456789 ,255 ]:
+    leftPad , } , @calculatedFrom( ""a\""b"" )char[]
+u128
+`two words`
+, uint16  A
+    ,
+} options	{calculatedFrom = true ;  } packet f32a { // " ++ [27880; 37322]%N ++ runes_of_ascii "
+@calculatedFrom(
+    """ ++ [28040; 24687]%N ++ runes_of_ascii """ ) // @lengthOf(
+repeat
+char[]
+// " ++ [128512]%N ++ runes_of_ascii " emoji
+// c
+i8i8 , match MetaDataX as Logon { [ 42,	00
+    , 10 ,0//
+,
+    255 ,
+    3 , 3 ] :
+stringy// 50% %s
+, [ //x
+""abc""] :u8x [""1"" , 00 ]: asx ,// 50% %s
+[ 0123456789 ] //x
+: As // " ++ [128512]%N ++ runes_of_ascii " emoji
+, ""a\""b"" :	roots 4294967296 : trueish
+,
+} ,
+match // c
+u128 as MetaDataX
+    { 0123456789 :
+    charz
+    ,//
+} ,
+repeat zchar[ 7 ] Z9_ ,
+@lengthOf( // " ++ [27880; 37322]%N ++ runes_of_ascii "
+options1	) @tag(65535 ) @leftPad(
+' ' )
+rootA{
+zchar
+    `{ , }`,
+    repeat
+f32
+    Z9_ , }	,//	t
+body , x @lengthOf( options1 )	, matchKey //
+, }
+")).
+Eval vm_compute in ("<<<M4130>>>" ++ check (runes_of_ascii "
+packet msg_type
+{
+//
+    	i8
+	_x 
+`{ , }`, i8
+Foo 
+, 
+@calculatedFrom( ""// no comment""	)
+    Z9_
+
+`it's`	//
+    ,
+    @lengthOf( BodyLength)  repeat trueish
+,
+
+    @lengthOf(Logon
+) zchar[00 ] float
+
+`{ , }`
+,
+
+}
+options
+{pack
+=
+
+true
+
+    }	packet
+	falsey
+
+    { 
+@lengthOf(asx )
+A	chars  ,
+    body 
+    // @lengthOf(
+	, repeat
+    // " ++ [128512]%N ++ runes_of_ascii " emoji
+  string_ { 
+repeat
+len
+
+    { char[
+	1
+
+]packetx 	 //
+@lengthOf(// @lengthOf(
+	i8i8  )	,
+
+} , repeat	string_
+packetx ,} ,
+
+u16
+
+    Logon@calculatedFrom(
+""a	b"" ), repeat  i16 Logon,
+        // packet A { u8 x, }
+  /// triple
+    match Packet  // c
+    as  matchKey 
+{
+
+    65535  :	u 
+, // c
+  	65535 :
+    MetaDataX ,
+}
+
+    ,@calculatedFrom(  // @lengthOf(
+	""a\\""
+	)
+    repeat zchar[
+255]
+stringy
+	, }
+
+    packet
+matchKey
+
+    { @lengthOf( 
+charz	) repeat
+string
+leftPad
+,  }
+options{Packet =
+	'\x00' 
+	    // `tick` ""quote"" 'q'
+  // `tick` ""quote"" 'q'
+	} 
+  // c
+ 
+")).
+Eval vm_compute in ("<<<M997>>>" ++ check (runes_of_ascii "packet
+    T { repeat
+string
+options1 ,
+@lengthOf(
+Packet )@calculatedFrom( """ ++ [128512]%N ++ runes_of_ascii """ )
+@lengthOf(repeatCount ) u64	asx,
+@leftPad ( '\x00' ) x
+// c
+// a // b
+{// c
+string // trailing space 
+a1`tab	here` , repeat pack Header
+/// triple
+//x
+,
+match packetx	as rootA//
+{ 3
+: chars ,}
+, }
+    , falsey @lengthOf( matchKey )`line1
+line2`,
+    @calculatedFrom(
+    ""`tick`""
+) @calculatedFrom(""1"") char[00 ] u128
+    @lengthOf( a1 ) , @lengthOf( lengthOf
+    // `tick` ""quote"" 'q'
+    ) @rightPad
+    (
+    // packet A { u8 x, }
+    '0' /// triple
+) @lengthOf(
+u128 )	rootA ,
+    }
+// " ++ [128512]%N ++ runes_of_ascii " emoji
+//	t
+options{ }
+    packet u128 {
+    @tag(
+    3
+)	@tag( 255 ) @lengthOf( _x)char crc `u8 x,`
+,
+    repeat
+    matchKey repeatCount , repeat T `crlf
+line` // trailing space 
+, char[] trueish `
+`, } options
+    // 50% %s
+    {
+    Packet = true	u128/// triple
+=
+'0' ; As =""// no comment""	;
+o	= false  } options{ }
+/// triple
+")).
+Eval vm_compute in ("<<<M4217>>>" ++ check (runes_of_ascii "packet
+    x_y_z
+        //	t
+
+	{ 
+// packet A { u8 x, }
+
+/// triple
+_x 
+,
+repeat
+
+    float 
+,
+    @tag(
+    1 )  match
+Foo
+
+as rootA { [255 
+]:
+    options1
+, [""a\\"" ] : 
+      /// triple
+  leftPad
+	,  } ,
+@lengthOf(
+len
+)match
+
+o as  Z9_  { 7 :
+As  ,
+
+    ""x y""
+:
+
+    matchKey	// `tick` ""quote"" 'q'
+    	""// no comment""
+:
+u128
+
+    ,
+
+[  
+      // @lengthOf(
+
+  // `tick` ""quote"" 'q'
+    0 
+,
+	255  ]
+
+    :len,
+	""CRC32"" 
+:	metadata 3
+: 
+chars ,
+
+} 
+,  u64
+    roots`say ""hi""` ,
+    @tag(  42
+)
+
+    string  int  @lengthOf( Header
+)
+,@tag(
+1
+
+)
+@lengthOf(	float
+
+) 
+// packet A { u8 x, }
+
+rootA 
+Z9_
+	, match  msg_type
+as  metadata
+{  [ 7  , 
+0123456789 ] :  uint8x
+    //x
+	// a // b
+    	,
+
+[ 
+255
+]
+
+: 
+int
+
+,
+
+    // packet A { u8 x, }
+255	:
+
+lengthOf
+    ,
+
+""a\\""	:	u128	/// triple
+  	, ""1"":u128 ,} ,  }  
+  // `tick` ""quote"" 'q'
+ 
+")).
+Eval vm_compute in ("<<<M277>>>" ++ check (runes_of_ascii "MetaData charz{	char[ 42 ]metadata ,  uint32  options1 // c
+,} MetaData stringy { char[
+0123456789] Logon // packet A { u8 x, }
+`crlf
+line` ,}packet
+f32a { falsey @lengthOf( Packet ) ,string //
+trueish ,zchar[ 255
+    ]
+msg_type @lengthOf(  Packet
+    ) ,float32 MetaDataX
+@calculatedFrom( ""abc"" ), string rootA
+@lengthOf(
+tag ) `` ,@lengthOf(BodyLength // a // b
+) Packet { u32 chars
+`" ++ [28040; 24687; 31867; 22411]%N ++ runes_of_ascii "`
+, falsey,
+} , @lengthOf( _x ) @tag( 255
+) @calculatedFrom( ""abc"" )chars	`
+`
+    , repeat _x metadata // c
+, repeat char[ 0123456789 ] pack , @lengthOf( f32a	)
+    //	t
+    @calculatedFrom(
+""" ++ [28040; 24687]%N ++ runes_of_ascii """ ) @lengthOf(
+// a // b
+// " ++ [128512]%N ++ runes_of_ascii " emoji
+Logon ) // " ++ [27880; 37322]%N ++ runes_of_ascii "
+repeat lengthOf {
+    i8i8 { zchar @calculatedFrom( """ ++ [28040; 24687]%N ++ runes_of_ascii """ ) `crlf
+line` , } ,char[
+65535  ] u8x , int32
+chars@lengthOf( leftPad	) `100% of %d`//x
+, repeat x , }
+    //
+    ,
+}")).
+Eval vm_compute in ("<<<M447>>>" ++ check (runes_of_ascii "MetaData asx{// " ++ [27880; 37322]%N ++ runes_of_ascii "
+charz _x ,int8 x_y_z `two words`, i32
+charz ,repeatCount i64_
+    ,
+u8x calculatedFrom , i8
+// `tick` ""quote"" 'q'
+// c
+roots , }MetaData x
+{ }
+    MetaData
+len
+    { matchKey
+packetx , uint8 uint8x,
+} root
+packet
+body {	u128 @calculatedFrom( """" /// triple
+)
+    ,
+    repeat
+    trueish { char[]// " ++ [128512]%N ++ runes_of_ascii " emoji
+asx @lengthOf(
+    body	)	`u8 x,` , match
+    // packet A { u8 x, }
+    body
+// @lengthOf(
+// 50% %s
+as//
+i8i8 { ""a\""b"": packetx
+    , ""a	b"":
+i64_ , [ """" ,
+42 ]: MetaDataX,[ """ ++ [28040; 24687]%N ++ runes_of_ascii """ ] : pack
+3 : x
+[ 0
+    , 007 ] :	Z9_ , } , char[ 10 ]// `tick` ""quote"" 'q'
+int
+    `// not a comment`, u repeatCount `{ , }` , }
+, @lengthOf( trueish
+    ) char asx `doc` // @lengthOf(
+,
+@tag( 0 )
+i64_ ,} MetaData lengthOf { char[]float `crlf
+line`,// " ++ [128512]%N ++ runes_of_ascii " emoji
+}
+")).
+Eval vm_compute in ("<<<M1196>>>" ++ check (runes_of_ascii "packet i64_ {
+    @calculatedFrom( """ ++ [128512]%N ++ runes_of_ascii """ ) leftPad
+, }
+packet
+As
+    {@rightPad ( ' '
+    ) repeat	int o `say ""hi""` // " ++ [128512]%N ++ runes_of_ascii " emoji
+, metadata{match crc as matchKey { [""CRC32"" ,	""// no comment"" , ""CRC32"" , 65535 ]
+:
+// " ++ [128512]%N ++ runes_of_ascii " emoji
+// " ++ [128512]%N ++ runes_of_ascii " emoji
+zchar 3
+:
+// " ++ [27880; 37322]%N ++ runes_of_ascii "
+// `tick` ""quote"" 'q'
+i64_ , }
+    //
+    , repeat
+    stringy ,  } ,
+@calculatedFrom( ""\" ++ [233]%N ++ runes_of_ascii """// 50% %s
+) _x crc , i64_@calculatedFrom( ""// no comment"")
+    // a // b
+    ,
+@rightPad (	' ' )i8
+    float @lengthOf( tag ), @tag(
+// " ++ [27880; 37322]%N ++ runes_of_ascii "
+//x
+255 ) match // trailing space 
+rootA as
+A { ""`tick`"" : asx ,
+} ,
+tag
+    // " ++ [27880; 37322]%N ++ runes_of_ascii "
+    { // a // b
+zchar[
+10
+] asx , // trailing space 
+} ,	Header {A @lengthOf(
+len ) ,
+string_ @lengthOf(Logon
+)`tab	here` ,
+i64_, } ,
+    } options
+    {matchKey =""1"" ; }
+options { }
+")).
+Eval vm_compute in ("<<<M1338>>>" ++ check (runes_of_ascii "packet
+    x{
+    @calculatedFrom(
+    ""\n""
+// packet A { u8 x, }
+// `tick` ""quote"" 'q'
+)  repeat uint64 roots /// triple
+, string falsey ,
+    @calculatedFrom( ""{,}""
+)
+    repeatCount `two words`
+, match roots as uint8x
+{ ""`tick`"" :	chars,  007 : u, },
+i32 Pad @lengthOf( string_	)  `it's`
+    , //x
+repeat u16 T , @rightPad('0'  )
+    match u8x
+    as matchKey { [""\" ++ [233]%N ++ runes_of_ascii """ ]
+:// " ++ [27880; 37322]%N ++ runes_of_ascii "
+repeatCount	""a\""b""
+    :pack , 0
+:
+packetx ,  } , @lengthOf( Z9_ )@lengthOf(
+f32a )
+    string_ { match zchar as repeatCount { 255:crc , 007  : As , [
+    0 , ""CRC32"" ]
+: i8i8
+,// 50% %s
+} , leftPad,int {
+    repeat float{
+leftPad @lengthOf(	Logon ) // " ++ [27880; 37322]%N ++ runes_of_ascii "
+,
+    roots // packet A { u8 x, }
+,//
+} , repeat f64 Packet ,}
+    , } , // c
+}
+")).
+Eval vm_compute in ("<<<M694>>>" ++ check (runes_of_ascii "root packet roots
+    { @lengthOf(
+    _x )a1 @lengthOf( // a // b
+stringy
+) `{ , }` ,match // a // b
+o
+as
+A { 42: i8i8 ,
+    [""a\\"",  ""a\""b""	] : options1 ,  ""`tick`"" : falsey,
+// `tick` ""quote"" 'q'
+//	t
+} , @calculatedFrom( ""packet""	)
+    @lengthOf( zchar ) uint8 rootA //
+,
+//
+/// triple
+_x
+, } packet pack { @tag(	3 )string int , u32 pack @lengthOf( Z9_ )`line1
+line2`, a1 , @lengthOf(body) x //	t
+T
+`a\` ,
+    string a1  , float32
+    As
+// c
+// @lengthOf(
+@calculatedFrom( """ ++ [233]%N ++ runes_of_ascii "t" ++ [233]%N ++ runes_of_ascii """ ), char[]	metadata `it's` , A `two words` ,@lengthOf(len
+)	u128 { string  i8i8@lengthOf( calculatedFrom
+) `` ,
+    zchar[007
+]	uint8x
+`" ++ [233]%N ++ runes_of_ascii "` , Z9_
+    { u16
+    //	t
+    matchKey ,
+} , } ,}
+// 50% %s
+")).
+Eval vm_compute in ("<<<M448>>>" ++ check (runes_of_ascii "packet BodyLength //
+{  repeat BodyLength { x
+@lengthOf( asx ), } , int
+{MetaDataX
+    @calculatedFrom(""x y""
+// c
+// " ++ [128512]%N ++ runes_of_ascii " emoji
+), },  @calculatedFrom( // packet A { u8 x, }
+""`tick`"")
+int64 Z9_,repeat zchar[ 10 ]
+BodyLength
+    // `tick` ""quote"" 'q'
+    ,  string
+falsey
+    `" ++ [28040; 24687; 31867; 22411]%N ++ runes_of_ascii "` , u16
+// trailing space 
+//
+crc @lengthOf(u128 ) , char[ 7 ] i64_ ,
+    falsey`u8 x,`, // trailing space 
+repeat MetaDataX { repeat uint64 i8i8 `tab	here`
+    , _x , } ,
+@lengthOf(  x_y_z
+) body { zchar[ 10 ] int `crlf
+line`	, zchar[
+4294967296 ]uint8x @calculatedFrom(""a\""b"")
+    `
+`
+    // c
+    ,
+} , }options {
+    Pad
+= int32 T = ""x y""	; }MetaData asx { falsey packetx, }
+")).
+Eval vm_compute in ("<<<M3920>>>" ++ check (runes_of_ascii "packet msg_type {
+    @leftPad('0')
+    repeat zchar[4294967296] roots,
+    repeat u32 u128,
+    @rightPad('\x00')
+    match x_y_z as As {
+        007 : Foo,
+    },
+    @leftPad(' ')
+    @leftPad()
+    _x u,
+    @tag(7)
+    repeat chars {
+        falsey leftPad `" ++ [28040; 24687; 31867; 22411]%N ++ runes_of_ascii "`,
+        zchar[4294967296] packetx @lengthOf(i64_) `doc`,
+        char[1] options1 @calculatedFrom(""1""),
+    },
+    i64 matchKey @calculatedFrom(""x y"") `line1
+        line2`,
+    zchar[007] uint8x ``,
+    @lengthOf(falsey)
+    @calculatedFrom(""" ++ [233]%N ++ runes_of_ascii "t" ++ [233]%N ++ runes_of_ascii """)
+    // 50% %s
+    As {
+        //
+        zchar {
+            repeat int8 asx,
+            repeat Packet,
+        },
+    },
+}")).
+Eval vm_compute in ("<<<M3318>>>" ++ check (runes_of_ascii "// top
+root
+    // c0
+packet
+    // c1
+trueish
+    // c2
+{
+    // c3
+}
+    // c4
+MetaData
+    // c5
+x_y_z
+    // c6
+{
+    // c7
+zchar[
+    // c8
+7
+    // c9
+]
+    // c10
+body
+    // c11
+,
+    // c12
+BodyLength
+    // c13
+_x
+    // c14
+,
+    // c15
+i8i8
+    // c16
+As
+    // c17
+,
+    // c18
+i8
+    // c19
+Foo
+    // c20
+,
+    // c21
+}
+    // c22
+packet
+    // c23
+f32a
+    // c24
+{
+    // c25
+@lengthOf(
+    // c26
+x
+    // c27
+)
+    // c28
+match
+    // c29
+Foo
+    // c30
+as
+    // c31
+trueish
+    // c32
+{
+    // c33
+10
+    // c34
+:
+    // c35
+f32a
+    // c36
+,
+    // c37
+}
+    // c38
+,
+    // c39
+}
+    // c40
+")).
+Eval vm_compute in ("<<<M507>>>" ++ check (runes_of_ascii "MetaData tag{
+f64
+// 50% %s
+// `tick` ""quote"" 'q'
+chars `" ++ [233]%N ++ runes_of_ascii "` ,
+    }
+packet string_
+{ @calculatedFrom(
+    """" )char[ 7 // @lengthOf(
+]metadata// @lengthOf(
+@lengthOf(// a // b
+o) , string_ ,
+    charz
+    // 50% %s
+    {
+    char[ 1 ] msg_type// " ++ [128512]%N ++ runes_of_ascii " emoji
+`two words` ,zchar[
+    65535
+] stringy,
+char[ 007 ] roots @lengthOf(
+matchKey ), }
+,// @lengthOf(
+match calculatedFrom
+as
+    // `tick` ""quote"" 'q'
+    calculatedFrom { 10 : leftPad}  , i64_ @calculatedFrom(
+""// no comment"" ),
+    match len as
+BodyLength{ [ ""CRC32"", ""\" ++ [233]%N ++ runes_of_ascii """
+    ]
+:MetaDataX , }
+    ,uint64 trueish `
+` /// triple
+,}")).
+Eval vm_compute in ("<<<M1327>>>" ++ check (runes_of_ascii "MetaData matchKey
+    {
+}	packet x_y_z
+{
+    repeat u64 zchar  `u8 x,` , @rightPad( ) @tag( 3 ) match int as //
+stringy { // c
+[ 0 ] :
+chars, 0 :i8i8 42 : i64_  , [ 255
+    ,
+    // @lengthOf(
+    7 // a // b
+,""1"" ,""a\\""] : leftPad , """ ++ [233]%N ++ runes_of_ascii "t" ++ [233]%N ++ runes_of_ascii """
+: Header,
+    [// packet A { u8 x, }
+7 ] : repeatCount
+    //
+    , }
+, } root packet
+    f32a {match packetx as Logon{  ""`tick`""
+: u128,	42
+: string_
+// c
+// packet A { u8 x, }
+""it's""
+/// triple
+// `tick` ""quote"" 'q'
+:
+uint8x ,""abc"": u, ""abc""
+    :packetx
+,
+00
+: T
+    , } , } options {
+stringy = """ ++ [128512]%N ++ runes_of_ascii """; }
+    packet roots { }
+")).
+Eval vm_compute in ("<<<M537>>>" ++ check (runes_of_ascii "MetaData Logon {
+    pack roots `{ , }`
+,
+    }packet x // `tick` ""quote"" 'q'
+{
+} options {// packet A { u8 x, }
+} packet crc
+//
+// trailing space 
+{ repeat u64
+    roots`say ""hi""` , zchar[
+    007
+] repeatCount @lengthOf( trueish // " ++ [128512]%N ++ runes_of_ascii " emoji
+),@tag( 0 )
+    charz { A { a1 falsey
+, } ,	match As	as f32a	{ 42 : u8x, } , Logon @calculatedFrom( """" )
+`100% of %d` , } ,falsey @calculatedFrom( ""x y"" ),  repeat
+char[ //
+65535
+    // `tick` ""quote"" 'q'
+    ] rootA `
+`  ,
+@calculatedFrom(
+    ""`tick`"")  @calculatedFrom(
+""a	b"" )
+repeat zchar zchar
 ,}
 ")).
-Eval vm_compute in ("<<<M145>>>" ++ check (runes_of_ascii "root //	t
-packet
-BodyLength { zchar[ 10
-]
-u128
+Eval vm_compute in ("<<<M695>>>" ++ check (runes_of_ascii "root
+    packet o{ @tag(	65535 )
+repeat zchar[ 0 ] Foo
+    `100% of %d` , @rightPad
+( '0'
+) stringy // a // b
+{ Pad  { stringy falsey , int32 metadata @lengthOf(
+    x_y_z )
     ,
-uint8 zchar ``
-    , repeat falsey ,float64 chars@calculatedFrom( """ ++ [128512]%N ++ runes_of_ascii """
-) , char[]matchKey, repeat //x
-uint16 matchKey ,
-@calculatedFrom( ""CRC32"" ) char[ 3 ] u `" ++ [28040; 24687; 31867; 22411]%N ++ runes_of_ascii "` , @leftPad ( '0'
-    //	t
-    ) u64  charz @calculatedFrom(""" ++ [128512]%N ++ runes_of_ascii """), }
-root packet chars //
-{} MetaData Z9_{ zchar[ 255 ] _x,int32 f32a , int8
-asx `` ,
-o
-packetx // `tick` ""quote"" 'q'
-, }
-    options
-// trailing space 
-// c
-{	A
-=
-4294967296
-//
-// packet A { u8 x, }
-;
-Foo = ""x y"" ;Foo =  ' ' } //	t")).
-Eval vm_compute in ("<<<M17>>>" ++ check (runes_of_ascii "root  packet
-Pad {
-@tag(65535 ) @lengthOf(
-matchKey) //
-int32 pack
-    , // `tick` ""quote"" 'q'
-zchar[65535  ]
-charz @calculatedFrom(""""
-    )
-`crlf
-line` , }
-MetaData
-options1
-    {charz crc
-//
-// " ++ [27880; 37322]%N ++ runes_of_ascii "
-, body packetx `// not a comment`, } packet string_ { char[	7 // @lengthOf(
-]
-T	@calculatedFrom(""\" ++ [233]%N ++ runes_of_ascii """) // c
-, @leftPad ( '\x00')@calculatedFrom(
-""packet"" )
-@tag( 42
-// " ++ [128512]%N ++ runes_of_ascii " emoji
-// " ++ [128512]%N ++ runes_of_ascii " emoji
-) string string_ @calculatedFrom( """ ++ [28040; 24687]%N ++ runes_of_ascii """ ) `a\` , }
-")).
-Eval vm_compute in ("<<<M1896>>>" ++ check (runes_of_ascii "packet Foo {
-    Logon A `a\`,
-    a1 A,
-    @lengthOf(tag)
-    // trailing space 
-    x_y_z @lengthOf(leftPad) `it's`,
-    @tag(255)
-    match crc as roots {
-        """ ++ [233]%N ++ runes_of_ascii "t" ++ [233]%N ++ runes_of_ascii """ : Foo,
-        [10, 007, """ ++ [233]%N ++ runes_of_ascii "t" ++ [233]%N ++ runes_of_ascii """, ""a	b""] : x_y_z,
-    },// @lengthOf(
-}
-
-root packet As {
-}
-
-MetaData calculatedFrom {
-    Z9_ _x ``,
-}
-
-MetaData tag {
-    // " ++ [27880; 37322]%N ++ runes_of_ascii "
-    string body,
-    string options1,
-    i8i8 pack,
-}")).
-Eval vm_compute in ("<<<M170>>>" ++ check (runes_of_ascii "// " ++ [128512]%N ++ runes_of_ascii " emoji
-packet i64_ { match repeatCount
-as u8x{ // packet A { u8 x, }
-7 : crc , },repeat uint32 roots ,
-} packet options1{ match  MetaDataX as
-chars
-{ ""CRC32""
-    :tag , 00 : lengthOf// a // b
-,	""" ++ [233]%N ++ runes_of_ascii "t" ++ [233]%N ++ runes_of_ascii """ : _x , } , uint16 trueish	,
-char[ 10 ] calculatedFrom	,
-@calculatedFrom( ""a\\""  ) @tag(
-65535 ) @rightPad (	'\x00' ) repeat int32 len , }
-")).
-Eval vm_compute in ("<<<M342>>>" ++ check (runes_of_ascii "root packet roots {  @tag(7 // `tick` ""quote"" 'q'
-) int64
-    A ,}
-//
-//
-packet u128
+} ,
+    }	,@rightPad (
+) @tag(10 )
     // a // b
-    { msg_type Pad
-`line1
-line2` , }options {crc = ""\" ++ [233]%N ++ runes_of_ascii """
-; }
-    root packet _x
-    {
-@lengthOf( pack// " ++ [27880; 37322]%N ++ runes_of_ascii "
-)
-    i16 MetaDataX	, calculatedFrom
-    { packetx@lengthOf(BodyLength )`{ , }` , } // a // b
-,}")).
-Eval vm_compute in ("<<<M569>>>" ++ check (runes_of_ascii "root packet tag { }  packet MetaDataX{char[007	]
-// c
-/// triple
-asx  @calculatedFrom( ""a\""b""
-) `say ""hi""`// " ++ [27880; 37322]%N ++ runes_of_ascii "
-,  @tag(4294967296 4294967296 )
-    char[1//x
-] packetx @calculatedFrom(""a\""b""
-    ) ,
-// " ++ [128512]%N ++ runes_of_ascii " emoji
-// a // b
-@calculatedFrom(""" ++ [233]%N ++ runes_of_ascii "t" ++ [233]%N ++ runes_of_ascii """  ) repeat pack // " ++ [27880; 37322]%N ++ runes_of_ascii "
+    BodyLength
+`a\`
+    , msg_type rootA, } packet i8i8 { @rightPad
+    (
+' '
+)repeat A`a\`, char[4294967296] // a // b
+x  @calculatedFrom(
+""" ++ [28040; 24687]%N ++ runes_of_ascii """ )
+    // " ++ [128512]%N ++ runes_of_ascii " emoji
+    `" ++ [233]%N ++ runes_of_ascii "`
 ,
-    } // c")).
-Eval vm_compute in ("<<<M576>>>" ++ check (runes_of_ascii "root packet tag { }  packet MetaDataX{char[007	]
-// c
-/// triple
-asx  @calculatedFrom( ""a\""b""
-) `say ""hi""`// " ++ [27880; 37322]%N ++ runes_of_ascii "
-,  @tag(4294967296 char[
-    char[1//x
-] packetx @calculatedFrom(""a\""b""
-    ) ,
-// " ++ [128512]%N ++ runes_of_ascii " emoji
+    repeat//x
+string i8i8, MetaDataX{
+// trailing space 
 // a // b
-@calculatedFrom(""" ++ [233]%N ++ runes_of_ascii "t" ++ [233]%N ++ runes_of_ascii """  ) repeat pack // " ++ [27880; 37322]%N ++ runes_of_ascii "
-,
-    } // c")).
-Eval vm_compute in ("<<<M167>>>" ++ check (runes_of_ascii "options { roots
-=//x
-int64 }
-// @lengthOf(
-// @lengthOf(
-packet
+float64 Z9_
+@calculatedFrom(""" ++ [233]%N ++ runes_of_ascii "t" ++ [233]%N ++ runes_of_ascii """ )
+    ,
+} , }
+")).
+Eval vm_compute in ("<<<M4094>>>" ++ check (runes_of_ascii "
+packet int{
+        // " ++ [128512]%N ++ runes_of_ascii " emoji
+    	}options  {  Z9_
+    =
+' ' ; repeatCount 
+=0
+Header = zchar[
+
+007	]i64_
+
+    /// triple
+	  // " ++ [128512]%N ++ runes_of_ascii " emoji
+  =  """ ++ [128512]%N ++ runes_of_ascii """;
+	}  root packet leftPad
+{
+
+roots , }
+root  packet 
+Foo
+
+    { repeat 	 //x
+MetaDataX
+    u8x`crlf
+line`
+
+    ,
+
+    @lengthOf(
+Header  )  zchar[ 65535]metadata `u8 x,`	, @tag(
+
+    65535
+)	stringy
+
+{ 
+options1	@lengthOf(	asx )
+    ,} ,
+
+    char[
+
+0 ]
+Packet
+    `two words`
+    , 
+@lengthOf(u8x )	int
+@lengthOf(
+	Logon
+
+)  , }
+
+")).
+Eval vm_compute in ("<<<M3759>>>" ++ check (runes_of_ascii "root packet len {
+    @lengthOf(MetaDataX)
+    int @lengthOf(u8x) `" ++ [233]%N ++ runes_of_ascii "`,
+    @calculatedFrom(""1"")
+    @lengthOf(Packet)
+    u128 @lengthOf(Foo) `line1
+        line2`,
+    zchar[10] u128 @lengthOf(i64_),
+    rootA uint8x,
+    // 50% %s
+    f64 falsey `a\`,
+    repeat char[] asx,
+    repeat chars As `crlf
+        line`,
     int {
-char  zchar, repeat len {
-    f32a `" ++ [28040; 24687; 31867; 22411]%N ++ runes_of_ascii "`, } ,zchar[
-007 ]As
-    `it's`
-,  zchar[007
-    // a // b
-    ] uint8x @lengthOf(
-    //x
-    Foo)
-    ,
-// packet A { u8 x, }
-// packet A { u8 x, }
-}
-")).
-Eval vm_compute in ("<<<M540>>>" ++ check (runes_of_ascii "root packet tag { }  packet MetaDataX{char[007	]
-// c
-/// triple
-asx  ""a\""b"" @calculatedFrom(
-) `say ""hi""`// " ++ [27880; 37322]%N ++ runes_of_ascii "
-,  @tag(4294967296 )
-    char[1//x
-] packetx @calculatedFrom(""a\""b""
-    ) ,
-// " ++ [128512]%N ++ runes_of_ascii " emoji
-// a // b
-@calculatedFrom(""" ++ [233]%N ++ runes_of_ascii "t" ++ [233]%N ++ runes_of_ascii """  ) repeat pack // " ++ [27880; 37322]%N ++ runes_of_ascii "
-,
-    } // c")).
-Eval vm_compute in ("<<<M608>>>" ++ check (runes_of_ascii "root packet tag { }  packet MetaDataX{char[007	]
-// c
-/// triple
-asx  @calculatedFrom( ""a\""b""
-) `say ""hi""`// " ++ [27880; 37322]%N ++ runes_of_ascii "
-,  @tag(4294967296 )
-    char[1//x
-] packetx @calculatedFrom(""a\""b""
-     ,
-// " ++ [128512]%N ++ runes_of_ascii " emoji
-// a // b
-@calculatedFrom(""" ++ [233]%N ++ runes_of_ascii "t" ++ [233]%N ++ runes_of_ascii """  ) repeat pack // " ++ [27880; 37322]%N ++ runes_of_ascii "
-,
-    } // c")).
-Eval vm_compute in ("<<<M623>>>" ++ check (runes_of_ascii "root packet tag { }  packet MetaDataX{char[007	]
-// c
-/// triple
-asx  @calculatedFrom( ""a\""b""
-) `say ""hi""`// " ++ [27880; 37322]%N ++ runes_of_ascii "
-,  @tag(4294967296 )
-    char[1//x
-] packetx @calculatedFrom(""a\""b""
-    ) ,
-// " ++ [128512]%N ++ runes_of_ascii " emoji
-// a // b
-@calculatedFrom(  ) repeat pack // " ++ [27880; 37322]%N ++ runes_of_ascii "
-,
-    } // c")).
-Eval vm_compute in ("<<<M642>>>" ++ check (runes_of_ascii "root packet tag { }  packet MetaDataX{char[007	]
-// c
-/// triple
-asx  @calculatedFrom( ""a\""b""
-) `say ""hi""`// " ++ [27880; 37322]%N ++ runes_of_ascii "
-,  @tag(4294967296 )
-    char[1//x
-] packetx @calculatedFrom(""a\""b""
-    ) ,
-// " ++ [128512]%N ++ runes_of_ascii " emoji
-// a // b
-@calculatedFrom(""" ++ [233]%N ++ runes_of_ascii "t" ++ [233]%N ++ runes_of_ascii """  ) repeat")).
-Eval vm_compute in ("<<<M100>>>" ++ check (runes_of_ascii "
-options{ calculatedFrom = false ; } packet i64_
-{
-    body,
-//	t
-//x
-}/// triple
-options { float
-=	true ;// @lengthOf(
-charz =// a // b
-char[65535 ]; u=/// triple
-true ;metadata = ""\" ++ [233]%N ++ runes_of_ascii """  matchKey = '\x00'
-    } // " ++ [27880; 37322]%N)).
-Eval vm_compute in ("<<<M52>>>" ++ check (runes_of_ascii "  root packet _x// " ++ [128512]%N ++ runes_of_ascii " emoji
-{@lengthOf(// c
-Packet ) float32 stringy  @calculatedFrom(
-""x y"" ) `say ""hi""`, match Pad as
-x_y_z{ ""a\\"" : float , 65535 : stringy 007: /// triple
-uint8x ,
-    } , }
-")).
-Eval vm_compute in ("<<<M425>>>" ++ check (runes_of_ascii "packet
-    // `tick` ""quote"" 'q'
-    crc
-// packet A { u8 x, }
-//	t
-{
-u32 a1 ,
-    // trailing space 
-    roots
-charz //
-`two words` `two words`,	}
-    MetaData int {
-} /// triple")).
-Eval vm_compute in ("<<<M2048>>>" ++ check (runes_of_ascii "
-root
-	packet 
-// c1
-  P 
-    // c2
-    {// c3a
-    // c3b
-
-	char  // c4a
-    // c4b
-		c
-
-    ,  // c6
-	u8 // c7a
-    // c7b
-
-  x
-
-,// c9a
-  	// c9b
-}
-        // c10
-")).
-Eval vm_compute in ("<<<M473>>>" ++ check (runes_of_ascii "packet
-    // `tick` ""quote"" 'q'
-    crc
-// packet A { u8 x, }
-//	t
-{
-u32 " ++ [127]%N ++ runes_of_ascii "a1 ,
-    // trailing space 
-    roots
-charz //
-`two words`,	}
-    MetaData int {
-} /// triple")).
-Eval vm_compute in ("<<<M696>>>" ++ check (runes_of_ascii "root packet len // trailing space 
-{
-// " ++ [27880; 37322]%N ++ runes_of_ascii "
-//	t
-char[10
-] metadata	@lengthOf( o ) `crlf
-line`,
-    @rightPad
-' ' (
-) string
-    Header @calculatedFrom( ""a\\""
-    ), }
-")).
-Eval vm_compute in ("<<<M323>>>" ++ check (runes_of_ascii "MetaData As  {
-// " ++ [128512]%N ++ runes_of_ascii " emoji
-// @lengthOf(
-a1 Pad , zchar[ 00 ] // `tick` ""quote"" 'q'
-body`// not a comment` ,
-crc uint8x `// not a comment` ,uint32
-packetx ``
-    ,}
-")).
-Eval vm_compute in ("<<<M1909>>>" ++ check (runes_of_ascii "// top
-MetaData float {
-    // c2
-    float64 charz `
-        `,// c6
-}// c7
-
-root packet chars {
-    // c11
-    @rightPad('0')
-    // c15
-    Foo,// c17
-}// c18")).
-Eval vm_compute in ("<<<M225>>>" ++ check (runes_of_ascii "
-MetaData options1 { zchar[
-    007 ] // `tick` ""quote"" 'q'
-zchar	`a\` , uint32 As ,
-    i8i8
-Foo ,
-// packet A { u8 x, }
-//x
-}
-    packet falsey { }")).
-Eval vm_compute in ("<<<M176>>>" ++ check (runes_of_ascii "
-packet Foo {	} packet MetaDataX
-    {char[]	Logon
-// trailing space 
-//
-,  }root packet MetaDataX { match Z9_ as zchar{
-7 : zchar , } , }")).
-Eval vm_compute in ("<<<M12>>>" ++ check (runes_of_ascii "packet
-    charz //
-{ @rightPad( '0')
-repeat
-    //x
-    Packet//x
-msg_type `" ++ [233]%N ++ runes_of_ascii "`	, } options {repeatCount
-= false falsey  = int64
-}")).
-Eval vm_compute in ("<<<M1222>>>" ++ check (runes_of_ascii "
-// c
-root packet matchKey { zchar[ 3 ] pack @calculatedFrom( ""a	b"" ) `doc` , } options { } MetaData A { int8 msg_type , }")).
-Eval vm_compute in ("<<<M1247>>>" ++ check (runes_of_ascii "root packet matchKey { zchar[ 3 ] pack @calculatedFrom( ""a	b"" ) `doc` , // c
-} options { } MetaData A { int8 msg_type , }")).
-Eval vm_compute in ("<<<M428>>>" ++ check (runes_of_ascii "packet
-    // `tick` ""quote"" 'q'
-    crc
-// packet A { u8 x, }
-//	t
-{
-u32 a1 ,
-    // trailing space 
-    roots
-charz")).
-Eval vm_compute in ("<<<M656>>>" ++ check (runes_of_ascii "root packet tag { }  packet MetaDataX{char[007	]
-// c
-/// triple
-asx  @calculatedFrom( ""a\""b""
-) `say ""hi""`// " ++ [65533; 65533]%N)).
-Eval vm_compute in ("<<<M905>>>" ++ check (runes_of_ascii "packet A {
-  match k as n {
-    [""a"", 22, ""c c"", 4, ""e"", 66, ""g"", 8, ""i"", 10, ""k"", 12] : B,
-    2 : C
-  },
-}")).
-Eval vm_compute in ("<<<M107>>>" ++ check (runes_of_ascii "
-packet a1{ match /// triple
-T as pack
-{007 : Header ,} , calculatedFrom	, } MetaData
-options1
-    { }")).
-Eval vm_compute in ("<<<M915>>>" ++ check (runes_of_ascii "packet A {
-    Inner {
-        u8 x `a
-b`,
-        Deep {
-            u8 y `a
-b`,
-        },
+        repeat matchKey ``,
     },
-}")).
-Eval vm_compute in ("<<<M1771>>>" ++ check (runes_of_ascii "packet chars {
-}// c
-
-packet MetaDataX {
-    @tag(42)
-    i16 string_,
-    repeat x `say ""hi""`,
-}")).
-Eval vm_compute in ("<<<M1443>>>" ++ check (runes_of_ascii "
-
-  options
-{
-	LittleEndian
-    =	true
-; }	root packet
-
-P
-
-    {repeat  char cs,u8
-x	, 
-}")).
-Eval vm_compute in ("<<<M844>>>" ++ check (runes_of_ascii "packet A {
-  match k as n {
-    [""a"", ""bb"", 007, ""d"", ""e"", 66, ""g""] : B,
-    2 : C
-  },
-}")).
-Eval vm_compute in ("<<<M1206>>>" ++ check (runes_of_ascii "MetaData float { float64 charz `
-` , } root packet chars { @rightPad ( // c
-'0' ) Foo , }")).
-Eval vm_compute in ("<<<M1417>>>" ++ check (runes_of_ascii "packet chars { } packet MetaDataX { @tag( 42 ) i16
-// c
-string_ , repeat x `say ""hi""` , }")).
-Eval vm_compute in ("<<<M1678>>>" ++ check (runes_of_ascii "packet charz {
-    repeat u16 Foo `{ , }`,
-    //
-    //
+    // " ++ [128512]%N ++ runes_of_ascii " emoji
+    match lengthOf as trueish {
+        ""\n"" : Foo,
+        ""\" ++ [233]%N ++ runes_of_ascii """ : i8i8,
+    },
 }
 
 options {
-    crc = """ ++ [28040; 24687]%N ++ runes_of_ascii """;
 }")).
-Eval vm_compute in ("<<<M1147>>>" ++ check (runes_of_ascii "packet metadata { Logon { A `" ++ [28040; 24687; 31867; 22411]%N ++ runes_of_ascii "` , tag o , }
+Eval vm_compute in ("<<<M4324>>>" ++ check (runes_of_ascii "options
+{ } packet Pad
+	{  repeat 
+
+    //	t
+	packetx  rootA`" ++ [233]%N ++ runes_of_ascii "`
+
+,  char[ 
+255
+    ]	asx
+
+    `u8 x,`
+,	}
+	packet f32a  { 	 /// triple
+repeat len
+    ,	//x
+
+  match
+	calculatedFrom as
+    u128
+    { 
+    // " ++ [128512]%N ++ runes_of_ascii " emoji
+// " ++ [128512]%N ++ runes_of_ascii " emoji
+    0123456789 :
+	crc
+    ,
+
+[
+	0
+	, 10 
+,
+""" ++ [128512]%N ++ runes_of_ascii """, 65535
+, 
+// 50% %s
+      //
+7	,
+""it's"",  0123456789
+
+    ] :
+
+    i64_ , 0123456789 
+:	msg_type// " ++ [27880; 37322]%N ++ runes_of_ascii "
+
+	, 
+},
+
+} 
+options {
+Z9_	=
+string  ;
+    matchKey	=
+""packet"" }
+")).
+Eval vm_compute in ("<<<M3582>>>" ++ check (runes_of_ascii "
+packet chars	{
+    }packet
+leftPad
+	{ 
+  // `tick` ""quote"" 'q'
+
+@tag( 
+3
+
+)  
+  // packet A { u8 x, }
+As
+
+@calculatedFrom(	""abc"")  /// triple
+
+,  //x
+
+repeat 	 //
+    string
+
+    rootA// a // b
+
+	,
+	repeat	char[]falsey  
+  // c
+`{ , }`  ,	char[] 
+zchar
+    @calculatedFrom( 
+""\" ++ [233]%N ++ runes_of_ascii """ ) ``
+
+    ,
+}	MetaData lengthOf
+
+    {
+
+char[ 255 ]
+    MetaDataX `{ , }` ,
+    // a // b
+} packet	charz
+
+    { 	 // 50% %s
+i64
+	charz,
+}")).
+Eval vm_compute in ("<<<M4084>>>" ++ check (runes_of_ascii "
+MetaData
+rootA{  zchar[
+    007
+]  uint8x `u8 x,` ,char[]
+
+lengthOf `a\`	, As MetaDataX ,
+
+zchar[  10	]
+    len
+	,// @lengthOf(
+  chars As
+    , }
+    packet
+
+    pack 
+{  }
+root packet
+	chars
+	{	@tag( 	 //	t
+    3
+)	i64 	 // 50% %s
+  	leftPad `tab	here`
+	, rootA ,  @leftPad( 
+'0' )repeat 
+  // trailing space 
+	// trailing space 
+int64 uint8x// trailing space 
+  ,
+
+    f32a
+
+    tag
+,}// @lengthOf(
+")).
+Eval vm_compute in ("<<<M1378>>>" ++ check (runes_of_ascii "options/// triple
+{ MetaDataX =
+// 50% %s
+// @lengthOf(
+65535 ; }
+    root
+    packet
+chars
+    { match
+    leftPad
+as charz { 65535:
+T ,	}
+    // packet A { u8 x, }
+    ,  string_
+    @lengthOf( // " ++ [128512]%N ++ runes_of_ascii " emoji
+float
+)
+    , BodyLength float // c
+,@tag( 0123456789
+    )
+repeat
+    f32 rootA`two words`
+,	}	options { a1 =0 body = false f32a
+= ""`tick`""x= // `tick` ""quote"" 'q'
+char[ 4294967296  ]
+; }
+")).
+Eval vm_compute in ("<<<M251>>>" ++ check (runes_of_ascii "root packet
+x_y_z { repeat
+    options1 {
+int8 len // packet A { u8 x, }
+, zchar[  00
+] A // trailing space 
+@calculatedFrom(
+""CRC32""
+    ), zchar[255 ] body
+`line1
+line2` ,
+char[3  ]
+// trailing space 
+// packet A { u8 x, }
+MetaDataX ,  } ,
+    string zchar @calculatedFrom( ""\" ++ [233]%N ++ runes_of_ascii """ ) , }packet //	t
+roots {
+@rightPad ('\x00') repeat len
+, string options1 ,	string As
+    `" ++ [233]%N ++ runes_of_ascii "`
+,
+}")).
+Eval vm_compute in ("<<<M428>>>" ++ check (runes_of_ascii "MetaData Header
+    //x
+    { } packet body
+{ @calculatedFrom(  ""// no comment""
+    )
+match
+    BodyLength as	a1 {
+    // " ++ [27880; 37322]%N ++ runes_of_ascii "
+    [ """ ++ [28040; 24687]%N ++ runes_of_ascii """
+    ] :
+msg_type [
+1 ,7	]
+: charz,
+    0 :Logon ,
+// " ++ [128512]%N ++ runes_of_ascii " emoji
+// a // b
+}, }
+options { options1
+=
+'0' trueish
+// trailing space 
+// a // b
+=
+7  ;	i8i8
+= '\x00' ;
+    } root packet Z9_
+    { } MetaData  pack {
+uint8x u128 , }")).
+Eval vm_compute in ("<<<M3890>>>" ++ check (runes_of_ascii "packet Pad {
+    crc @lengthOf(u128),
+    x `tab	here`,
+    match roots as _x {
+        ["""", 1] : pack,
+        // " ++ [128512]%N ++ runes_of_ascii " emoji
+        //
+        [""" ++ [233]%N ++ runes_of_ascii "t" ++ [233]%N ++ runes_of_ascii """, ""x y"", ""abc"", 0] : pack,
+        65535 : falsey,
+    },
+    uint8 o,
+    lengthOf @lengthOf(Z9_),// trailing space 
+    uint8 _x `two words`,
+    leftPad,
+    repeatCount @calculatedFrom(""abc""),
+}")).
+Eval vm_compute in ("<<<M4120>>>" ++ check (runes_of_ascii "options {
+    LittleEndian
+    =
+
+true 
+;
+	FixedStringPadChar
+
+=
+    '0'
+    ; 
+} packet  Heartbeat { zchar[ 
+5
+]
+
+sym
+, 
+repeat
+
+    char[ 
+3
+]
+OrderId,} root  packet Quote {u64 lastPx ,
+    repeat  u8
+	venue
+,
+    Heartbeat	, InSym1
+
+{
+
+    char[ 
+3
+
+    ]	Acct, 
+char[] lastPx  ,Heartbeat
+	, repeat string  x
+	,
+
+}	,
+	}
+")).
+Eval vm_compute in ("<<<M4109>>>" ++ check (runes_of_ascii "options {
+    LittleEndian = true;
+    FixedStringPadChar = '0';
+}
+
+packet Heartbeat {
+    zchar[5] sym,
+    repeat char[3] OrderId,
+}
+
+root packet Quote {
+    u64 lastPx,
+    repeat u8 venue,
+    Heartbeat,
+    InSym1 {
+        char[3] Acct,
+        char[] lastPx,
+        Heartbeat,
+        repeat string x,
+    },
+}")).
+Eval vm_compute in ("<<<M719>>>" ++ check (runes_of_ascii "
+MetaData A { zchar falsey	`u8 x,`
+    , }MetaData
+len // " ++ [27880; 37322]%N ++ runes_of_ascii "
+{ msg_type
+Z9_ `crlf
+line`, int32 packetx
+    // trailing space 
+    , int64 matchKey ,// a // b
+f32 As ,
+    zchar[
+    00] u8x
+`u8 x,` ,
+    zchar[ 0123456789 ]
+Logon `line1
+line2`  ,// a // b
+} options { Packet =//x
+""a\\"";} // @lengthOf(")).
+Eval vm_compute in ("<<<M4350>>>" ++ check (runes_of_ascii "options {
+    Pad = ""packet"";
+}
+
+packet i8i8 {
+    repeat string Foo,
+}
+
+options {
+    float = float32;
+}// 50% %s
+
+options {
+    As = char[];
+    //	t
+    roots = ""it's""
+}
+
+packet leftPad {
+    @tag(42)
+    repeat _x `crlf
+        line`,
+    @calculatedFrom(""x y"")
+    repeat char[] Pad,
+}")).
+Eval vm_compute in ("<<<M283>>>" ++ check (runes_of_ascii "root packet falsey{string	stringy
+    `tab	here`, repeat float As
+, char[] Packet ,
+i8 //
+body
+@lengthOf(// @lengthOf(
+T
+    ) ,repeat
+A // packet A { u8 x, }
+`a\` /// triple
+, u8x @calculatedFrom( ""\" ++ [233]%N ++ runes_of_ascii """)`tab	here`
+,float
+    ,char[
+    42 ]
+    i8i8
+    `u8 x,` , // a // b
+}")).
+Eval vm_compute in ("<<<M1201>>>" ++ check (runes_of_ascii "MetaData charz { msg_type //x
+metadata`two words` ,
+    //
+    char[  7 ] uint8x `two words` , i16 leftPad ,
+// " ++ [128512]%N ++ runes_of_ascii " emoji
 // c
-, zchar len `// not a comment` , }")).
-Eval vm_compute in ("<<<M1352>>>" ++ check (runes_of_ascii "packet o { repeat Logon uint8x , // c
-} options { asx = zchar[ 3 ] stringy = '\x00' }")).
-Eval vm_compute in ("<<<M861>>>" ++ check (runes_of_ascii "packet A {
+float64	repeatCount
+`` // c
+, } options
+{
+    o = false
+    ; packetx =	true ;
+float=
+    //x
+    ""it's""
+; f32a =
+//
+// " ++ [128512]%N ++ runes_of_ascii " emoji
+""\n"";
+Z9_=0 }
+")).
+Eval vm_compute in ("<<<M1584>>>" ++ check (runes_of_ascii "// 50% %s
+packet	a1
+    { zchar[
+// a // b
+// 50% %s
+007]
+T `it's`
+    ,@rightPad
+    // a // b
+    (
+'\x00')
+    false repeatCount , }  packet Logon {  }packet	Logon //x
+{ repeat // " ++ [128512]%N ++ runes_of_ascii " emoji
+uint16 u128
+    //
+    `a\`,
+falsey
+@calculatedFrom(""packet"" ) ,
+    } 	 ")).
+Eval vm_compute in ("<<<M1688>>>" ++ check (runes_of_ascii "// 50% %s
+packet	a1
+    { zchar[
+// a // b
+// 50% %s
+007]
+T `it's`
+    ,@rightPad
+    // a // b
+    (
+'\x00')
+    o repeatCount , }  packet Logon {  }packet	Logon //x
+{ repeat // " ++ [128512]%N ++ runes_of_ascii " emoji
+uint16 u128
+    //
+    `a\`,
+falsey
+@calculatedFrom(""packet"" ) ,
+    i16 	 ")).
+Eval vm_compute in ("<<<M1574>>>" ++ check (runes_of_ascii "// 50% %s
+packet	a1
+    { zchar[
+// a // b
+// 50% %s
+007]
+T `it's`
+    ,@rightPad
+    // a // b
+    (
+repeat)
+    o repeatCount , }  packet Logon {  }packet	Logon //x
+{ repeat // " ++ [128512]%N ++ runes_of_ascii " emoji
+uint16 u128
+    //
+    `a\`,
+falsey
+@calculatedFrom(""packet"" ) ,
+    } 	 ")).
+Eval vm_compute in ("<<<M1566>>>" ++ check (runes_of_ascii "// 50% %s
+packet	a1
+    { zchar[
+// a // b
+// 50% %s
+007]
+T `it's`
+    ,@rightPad
+    // a // b
+    
+'\x00')
+    o repeatCount , }  packet Logon {  }packet	Logon //x
+{ repeat // " ++ [128512]%N ++ runes_of_ascii " emoji
+uint16 u128
+    //
+    `a\`,
+falsey
+@calculatedFrom(""packet"" ) ,
+    } 	 ")).
+Eval vm_compute in ("<<<M1646>>>" ++ check (runes_of_ascii "// 50% %s
+packet	a1
+    { zchar[
+// a // b
+// 50% %s
+007]
+T `it's`
+    ,@rightPad
+    // a // b
+    (
+'\x00')
+    o repeatCount , }  packet Logon {  }packet	Logon //x
+{ repeat // " ++ [128512]%N ++ runes_of_ascii " emoji
+uint16 
+    //
+    `a\`,
+falsey
+@calculatedFrom(""packet"" ) ,
+    } 	 ")).
+Eval vm_compute in ("<<<M1561>>>" ++ check (runes_of_ascii "// 50% %s
+packet	a1
+    { zchar[
+// a // b
+// 50% %s
+007]
+T `it's`
+    ,
+    // a // b
+    (
+'\x00')
+    o repeatCount , }  packet Logon {  }packet	Logon //x
+{ repeat // " ++ [128512]%N ++ runes_of_ascii " emoji
+uint16 u128
+    //
+    `a\`,
+falsey
+@calculatedFrom(""packet"" ) ,
+    } 	 ")).
+Eval vm_compute in ("<<<M3425>>>" ++ check (runes_of_ascii "options
+	{
+FixedStringPadChar
+    =
+
+'0'  ;
+
+} packet	Q
+
+    {
+zchar[ 4
+
+    ]  z 
+, @rightPad
+
+(
+
+    '\x00' ) 
+char[
+
+3
+
+] n, 
+char[ 
+5 
+]
+	d	,
+
+    }
+root packet
+
+    R
+
+{ Q ,zchar[
+8 ]top  , repeat
+
+    zchar[ 2]
+
+    zs,
+	}
+")).
+Eval vm_compute in ("<<<M4018>>>" ++ check (runes_of_ascii "MetaData pack {
+    calculatedFrom Pad,
+    o f32a `doc`,
+    char[0123456789] Z9_ `line1
+        line2`,
+    string string_ `it's`,
+}
+
+options {
+    As = '0';
+    x_y_z = 255;
+    A = ' '
+    a1 = i16;
+    zchar = 0
+}
+
+MetaData crc {
+}")).
+Eval vm_compute in ("<<<M108>>>" ++ check (runes_of_ascii "MetaData Foo{ uint64
+uint8x
+`` ,int16
+Z9_
+    ,
+    uint8x i8i8,
+}
+packet Header { @lengthOf(o  ) @rightPad
+    ( '0'  )
+zchar[ 0123456789 ] Z9_,
+} packet	Foo { repeat	uint8 T , }packet packetx
+    // @lengthOf(
+    { }")).
+Eval vm_compute in ("<<<M1660>>>" ++ check (runes_of_ascii "// 50% %s
+packet	a1
+    { zchar[
+// a // b
+// 50% %s
+007]
+T `it's`
+    ,@rightPad
+    // a // b
+    (
+'\x00')
+    o repeatCount , }  packet Logon {  }packet	Logon //x
+{ repeat // " ++ [128512]%N ++ runes_of_ascii " emoji
+uint16 u128
+    //
+    `a\`")).
+Eval vm_compute in ("<<<M4313>>>" ++ check (runes_of_ascii "root packet MetaDataX {
+}
+
+packet uint8x {
+    crc @calculatedFrom(""a	b"") `it's`,
+    repeat string zchar `" ++ [233]%N ++ runes_of_ascii "`,
+    match lengthOf as u {
+        """" : zchar,
+    },
+    @tag(3)
+    repeat string f32a `it's`,
+}")).
+Eval vm_compute in ("<<<M1693>>>" ++ check (runes_of_ascii "// 50% %s
+packet	a1
+    { zchar[
+// a // b
+// 50% %s
+007]
+T `it's`
+    ,@rightPad
+    // a // b
+    (
+'\x00')
+    o repeatCount , }  packet Logon {  }packet	Logon //x
+{ repeat // " ++ [128512]%N ++ runes_of_ascii " emoji
+uint16 ")).
+Eval vm_compute in ("<<<M22>>>" ++ check (runes_of_ascii "
+MetaData string_ { uint32 f32a `crlf
+line` ,
+    zchar[ 0123456789
+    ]string_ `100% of %d`,stringy// `tick` ""quote"" 'q'
+u	`it's` ,char
+    Z9_
+, a1
+f32a // c
+,	char[ 1 ] a1
+,
+    }
+")).
+Eval vm_compute in ("<<<M4386>>>" ++ check (runes_of_ascii "packet falsey {
+    zchar[1] a1 @calculatedFrom(""a\\""),
+    u8x _x,
+    float64 rootA,
+    Foo {
+        match stringy as calculatedFrom {
+            3 : o,
+        },
+    },
+}")).
+Eval vm_compute in ("<<<M691>>>" ++ check (runes_of_ascii "packet u8x {repeat MetaDataX repeatCount
+// `tick` ""quote"" 'q'
+//
+, }MetaData
+u128 { // a // b
+uint8
+    charz `u8 x,`// " ++ [128512]%N ++ runes_of_ascii " emoji
+,a1 charz
+, f32 Foo , falsey packetx, }")).
+Eval vm_compute in ("<<<M444>>>" ++ check (runes_of_ascii "
+MetaData As // a // b
+{zchar[4294967296
+] T/// triple
+`doc`
+    ,
+int64 trueish
+    ,
+    // a // b
+    i8 calculatedFrom	`
+`, }
+packet packetx{ i64 crc
+    , }")).
+Eval vm_compute in ("<<<M2123>>>" ++ check (runes_of_ascii "MetaData BodyLength
+{ int8 Foo
+, string
+    MetaDataX , float zchar ,pack options1
+,@calculatedFrom( string_, }
+packet u8x {Foo@lengthOf(charz )
+`" ++ [28040; 24687; 31867; 22411]%N ++ runes_of_ascii "`,  }
+")).
+Eval vm_compute in ("<<<M974>>>" ++ check (runes_of_ascii "MetaData MetaDataX // packet A { u8 x, }
+{ uint8
+    stringy// `tick` ""quote"" 'q'
+`a\` , float32 // @lengthOf(
+f32a , u32 T , float32 uint8x
+, } // " ++ [27880; 37322]%N)).
+Eval vm_compute in ("<<<M4363>>>" ++ check (runes_of_ascii "MetaData As {
+    zchar[4294967296] T `doc`,
+    int64 trueish,
+    // a // b
+    i8 calculatedFrom `
+        `,
+}
+
+packet packetx {
+    i64 crc,
+}")).
+Eval vm_compute in ("<<<M3286>>>" ++ check (runes_of_ascii "// top
+packet // c0
+u8x // c1
+{ // c2
+} // c3
+MetaData // c4
+crc // c5
+{ // c6
+char[ // c7
+4294967296 // c8
+] // c9
+Foo // c10
+, // c11
+} // c12
+")).
+Eval vm_compute in ("<<<M2057>>>" ++ check (runes_of_ascii "MetaData BodyLength
+int8 { Foo
+, string
+    MetaDataX , float zchar ,pack options1
+,asx string_, }
+packet u8x {Foo@lengthOf(charz )
+`" ++ [28040; 24687; 31867; 22411]%N ++ runes_of_ascii "`,  }
+")).
+Eval vm_compute in ("<<<M692>>>" ++ check (runes_of_ascii "root
+packet MetaDataX	{ zchar  Foo ,} options// packet A { u8 x, }
+{ Logon =  ""1"" T = string ; leftPad =
+' '
+    // trailing space 
+    ;  }
+")).
+Eval vm_compute in ("<<<M2219>>>" ++ check (runes_of_ascii "options
+    {
+x_y_z x_y_z// " ++ [27880; 37322]%N ++ runes_of_ascii "
+= 10 ; }
+packet body {
+    @calculatedFrom(
+// trailing space 
+// " ++ [27880; 37322]%N ++ runes_of_ascii "
+""1""
+)	match T as Foo
+    {
+255 :T , }
+,}")).
+Eval vm_compute in ("<<<M1962>>>" ++ check (runes_of_ascii "
+packet leftPad {
+@leftPad( '0')
+u32 u32
+i64_ `100% of %d` ,repeat// 50% %s
+i8 chars
+    ,
+} MetaData
+    f32a
+{ // packet A { u8 x, }
+}")).
+Eval vm_compute in ("<<<M2165>>>" ++ check (runes_of_ascii "MetaData BodyLength
+{ int8 Foo
+, string
+    MetaDataX , float zchar ,pack options1
+,asx string_, }
+packet u8x {Foo@lengthOf( )
+`" ++ [28040; 24687; 31867; 22411]%N ++ runes_of_ascii "`,  }
+")).
+Eval vm_compute in ("<<<M2271>>>" ++ check (runes_of_ascii "options
+    {
+x_y_z// " ++ [27880; 37322]%N ++ runes_of_ascii "
+= 10 ; }
+packet body {
+    @calculatedFrom(
+// trailing space 
+// " ++ [27880; 37322]%N ++ runes_of_ascii "
+""1""
+i32	match T as Foo
+    {
+255 :T , }
+,}")).
+Eval vm_compute in ("<<<M2339>>>" ++ check (runes_of_ascii "options
+    {
+x_y_z// " ++ [27880; 37322]%N ++ runes_of_ascii "
+= 10 ; }
+packet body {
+    @calculatedFrom(
+// trailing space 
+// " ++ [27880; 37322]%N ++ runes_of_ascii "
+""1""
+)	match T as Foo
+    {
+255 :T , }
+,\}")).
+Eval vm_compute in ("<<<M2018>>>" ++ check (runes_of_ascii "
+packet leftPad {
+@leftPad( '0')
+u32
+i64_ `100% of %d` ,repeat// 50% %s
+i8 chars
+    ,
+} MetaData
+    f32a
+} // packet A { u8 x, }
+{")).
+Eval vm_compute in ("<<<M3546>>>" ++ check (runes_of_ascii "  packet	A
+    {
+
+match
+k
+
+as
+n
+
+{[
+""a""  , ""bb""
+, 
+007
+    ,""d""	,	""e""
+    ,66
+	,""g"",  ""h"",
+
+9
+
+,""j"" , ""k""	]	: 
+B
+	2:
+
+    C
+}
+
+, }")).
+Eval vm_compute in ("<<<M2323>>>" ++ check (runes_of_ascii "options
+    {
+x_y_z// " ++ [27880; 37322]%N ++ runes_of_ascii "
+= 10 ; }
+packet body {
+    @calculatedFrom(
+// trailing space 
+// " ++ [27880; 37322]%N ++ runes_of_ascii "
+""1""
+)	match T as Foo
+    {
+255 :T , }
+}")).
+Eval vm_compute in ("<<<M1966>>>" ++ check (runes_of_ascii "
+packet leftPad {
+@leftPad( '0')
+u32
+ `100% of %d` ,repeat// 50% %s
+i8 chars
+    ,
+} MetaData
+    f32a
+{ // packet A { u8 x, }
+}")).
+Eval vm_compute in ("<<<M1927>>>" ++ check (runes_of_ascii "
+ leftPad {
+@leftPad( '0')
+u32
+i64_ `100% of %d` ,repeat// 50% %s
+i8 chars
+    ,
+} MetaData
+    f32a
+{ // packet A { u8 x, }
+}")).
+Eval vm_compute in ("<<<M1888>>>" ++ check (runes_of_ascii "packet o {
+    roots `it's`
+// trailing space 
+//x
+, char[ 42
+    ]  A, // " ++ [27880; 37322]%N ++ runes_of_ascii "
+f64
+repeatCount repeatCount
+    `crlf
+line`
+,}")).
+Eval vm_compute in ("<<<M2261>>>" ++ check (runes_of_ascii "options
+    {
+x_y_z// " ++ [27880; 37322]%N ++ runes_of_ascii "
+= 10 ; }
+packet body {
+    char
+// trailing space 
+// " ++ [27880; 37322]%N ++ runes_of_ascii "
+""1""
+)	match T as Foo
+    {
+255 :T , }
+,}")).
+Eval vm_compute in ("<<<M2258>>>" ++ check (runes_of_ascii "options
+    {
+x_y_z// " ++ [27880; 37322]%N ++ runes_of_ascii "
+= 10 ; }
+packet body {
+    
+// trailing space 
+// " ++ [27880; 37322]%N ++ runes_of_ascii "
+""1""
+)	match T as Foo
+    {
+255 :T , }
+,}")).
+Eval vm_compute in ("<<<M1838>>>" ++ check (runes_of_ascii "packet o { {
+    roots `it's`
+// trailing space 
+//x
+, char[ 42
+    ]  A, // " ++ [27880; 37322]%N ++ runes_of_ascii "
+f64
+repeatCount
+    `crlf
+line`
+,}")).
+Eval vm_compute in ("<<<M1922>>>" ++ check (runes_of_ascii "packet o {
+    roots `it's`
+// trailing space 
+//x
+, char[ 42
+    ]  " ++ [8232]%N ++ runes_of_ascii "A, // " ++ [27880; 37322]%N ++ runes_of_ascii "
+f64
+repeatCount
+    `crlf
+line`
+,}")).
+Eval vm_compute in ("<<<M4305>>>" ++ check (runes_of_ascii "options {
+    LittleEndian = true;
+}
+
+root packet P {
+    u16 a,
+    u32 Sum @calculatedFrom(""CR\
+        C32""),
+}")).
+Eval vm_compute in ("<<<M3991>>>" ++ check (runes_of_ascii "
+packet	A{ u16	len @lengthOf( body
+)`x
+` , u32
+
+    crc@calculatedFrom( 
+""CRC32""  )`x
+` 
+, string
+	body
+, }
+")).
+Eval vm_compute in ("<<<M1842>>>" ++ check (runes_of_ascii "packet o {
+     `it's`
+// trailing space 
+//x
+, char[ 42
+    ]  A, // " ++ [27880; 37322]%N ++ runes_of_ascii "
+f64
+repeatCount
+    `crlf
+line`
+,}")).
+Eval vm_compute in ("<<<M3044>>>" ++ check (runes_of_ascii "packet A {
+    u16 len @lengthOf(body) `x
+`,
+    u32 crc @calculatedFrom(""CRC32"") `x
+`,
+    string body,
+}")).
+Eval vm_compute in ("<<<M1887>>>" ++ check (runes_of_ascii "packet o {
+    roots `it's`
+// trailing space 
+//x
+, char[ 42
+    ]  A, // " ++ [27880; 37322]%N ++ runes_of_ascii "
+f64
+
+    `crlf
+line`
+,}")).
+Eval vm_compute in ("<<<M2991>>>" ++ check (runes_of_ascii "packet A {
   match k as n {
-    [1, 22, 007, 4, 5, 66, 7, 8, 9] : B
+    [1, ""bb"", 007, ""d"", 5, ""f"", 7, ""h"", 9, ""j"", 11] : B
     2 : C
   },
 }")).
-Eval vm_compute in ("<<<M1313>>>" ++ check (runes_of_ascii "MetaData body { i64 pack // c
-`it's` , } packet stringy { int16 calculatedFrom , }")).
-Eval vm_compute in ("<<<M1769>>>" ++ check (runes_of_ascii "packet zchar {
-    @lengthOf(Header)
-    f32 string_ `a\`,
-}// packet A { u8 x, }")).
-Eval vm_compute in ("<<<M812>>>" ++ check (runes_of_ascii "packet A {
+Eval vm_compute in ("<<<M2977>>>" ++ check (runes_of_ascii "packet A {
   match k as n {
-    [1, ""bb"", 007, ""d"", 5] : B,
+    [1, ""bb"", 007, ""d"", 5, ""f"", 7, ""h"", 9, ""j""] : B,
     2 : C
   },
 }")).
-Eval vm_compute in ("<<<M803>>>" ++ check (runes_of_ascii "packet A {
+Eval vm_compute in ("<<<M2634>>>" ++ check (runes_of_ascii "packet A { @rightPad(' ') @lengthOf(b) @calculatedFrom(""c"") @tag(007) match k as n { 1 : B }, }")).
+Eval vm_compute in ("<<<M2788>>>" ++ check (runes_of_ascii "MetaData false i32 root @lengthOf( @leftPad match false i64 `a\` char[] @lengthOf( i32 string")).
+Eval vm_compute in ("<<<M2791>>>" ++ check (runes_of_ascii "i8 int32 repeat `tab	here` @lengthOf( uint32 007 ( ""\n"" @tag( @lengthOf( int64 f32 @rightPad")).
+Eval vm_compute in ("<<<M1321>>>" ++ check (runes_of_ascii "root packet
+/// triple
+// 50% %s
+int { char[]
+    len
+    ,repeat
+float32
+trueish `" ++ [233]%N ++ runes_of_ascii "`,
+}
+")).
+Eval vm_compute in ("<<<M4233>>>" ++ check (runes_of_ascii "packet A {
+    Inner {
+        match k as n {
+            [1, 22] : B,
+        },
+    },
+}")).
+Eval vm_compute in ("<<<M2005>>>" ++ check (runes_of_ascii "
+packet leftPad {
+@leftPad( '0')
+u32
+i64_ `100% of %d` ,repeat// 50% %s
+i8 chars
+    ,")).
+Eval vm_compute in ("<<<M1736>>>" ++ check (runes_of_ascii "options{  lengthOf =//x
+i16; ;
+    BodyLength = 0 ; pack
+= false;
+    A = char[ 3 ] }")).
+Eval vm_compute in ("<<<M1798>>>" ++ check (runes_of_ascii "options{  lengthOf =//x
+i16;
+    BodyLength = 0 ; pack
+= false;
+    A = char[ as ] }")).
+Eval vm_compute in ("<<<M1792>>>" ++ check (runes_of_ascii "options{  lengthOf =//x
+i16;
+    BodyLength = 0 ; pack
+= false;
+    A = 3 char[ ] }")).
+Eval vm_compute in ("<<<M3088>>>" ++ check (runes_of_ascii "packet A {
+    u32 crc @calculatedFrom(""%d%s""),
+    @calculatedFrom(""%d%s"") u8 y,
+}")).
+Eval vm_compute in ("<<<M4020>>>" ++ check (runes_of_ascii "
+
+  options
+
+    {leftPad// trailing space 
+=
+
+    ""x y""  // " ++ [27880; 37322]%N ++ runes_of_ascii "
+  ;
+
+    } ")).
+Eval vm_compute in ("<<<M3011>>>" ++ check (runes_of_ascii "packet A { Inner { match k as n { [1,22,007,4,5,66,7,8,9,10,11,12] : B, }, }, }")).
+Eval vm_compute in ("<<<M3274>>>" ++ check (runes_of_ascii "MetaData Foo { zchar[ 0 ] matchKey , } options { lengthOf = i32 u
+// c
+= 00 ; }")).
+Eval vm_compute in ("<<<M1342>>>" ++ check (runes_of_ascii "packet
+    u128	{
+    @calculatedFrom(""\n"" // c
+)	a1 `// not a comment`, }
+")).
+Eval vm_compute in ("<<<M4215>>>" ++ check (runes_of_ascii "packet Inner {
+    u8 a,
+}
+
+root packet P {
+    Inner ref_obj,
+    u8 x,
+}")).
+Eval vm_compute in ("<<<M390>>>" ++ check (runes_of_ascii "options  {
+// a // b
+// trailing space 
+calculatedFrom
+    = string }
+
+")).
+Eval vm_compute in ("<<<M1495>>>" ++ check (runes_of_ascii "packet
+T
+{ match repeatCount as	calculatedFrom
+{ [65535 ]	: As	,
+} ,")).
+Eval vm_compute in ("<<<M2819>>>" ++ check (runes_of_ascii "i16 ( @leftPad 0123456789 as len x_y_z i16 i64 as char root float32")).
+Eval vm_compute in ("<<<M2883>>>" ++ check (runes_of_ascii "packet A {
   match k as n {
-    [1, 22, ""c c"", 4] : B,
+    [1, 22, 007] : B
     2 : C
   },
 }")).
-Eval vm_compute in ("<<<M791>>>" ++ check (runes_of_ascii "packet A {
-  match k as n {
-    [1, 22, ""c c""] : B
-    2 : C
-  },
-}")).
-Eval vm_compute in ("<<<M235>>>" ++ check (runes_of_ascii "// " ++ [128512]%N ++ runes_of_ascii " emoji
-options {repeatCount = u32 ;tag = ' ' ; } // a // b")).
-Eval vm_compute in ("<<<M1084>>>" ++ check (runes_of_ascii "packet A { // a
+Eval vm_compute in ("<<<M76>>>" ++ check (runes_of_ascii "options { Pad
+    = char[ 7
+] ;	asx
+= ""CRC32"" ; a1 =	string ;}")).
+Eval vm_compute in ("<<<M3298>>>" ++ check (runes_of_ascii "packet u8x { }
+// c
+MetaData crc { char[ 4294967296 ] Foo , }")).
+Eval vm_compute in ("<<<M4237>>>" ++ check (runes_of_ascii "root
+packet	u128
+
+    {
+chars
+
+`doc` 
+    // c
+    ,
+	}
+")).
+Eval vm_compute in ("<<<M3205>>>" ++ check (runes_of_ascii "packet A { // a
  @tag(1) u8 x, // b
  // c
  @tag(2) u8 y, }")).
-Eval vm_compute in ("<<<M1083>>>" ++ check (runes_of_ascii "packet A { @tag(1) // a
- @leftPad('0') // b
- char[4] x, }")).
-Eval vm_compute in ("<<<M262>>>" ++ check (runes_of_ascii "MetaData u128 { uint8x msg_type `line1
-line2`	, }")).
-Eval vm_compute in ("<<<M963>>>" ++ check (runes_of_ascii "options {
-    a = ""x\
-y"";
-    b = ""x\
-y""
-}")).
-Eval vm_compute in ("<<<M1101>>>" ++ check (runes_of_ascii "root
+Eval vm_compute in ("<<<M2775>>>" ++ check (runes_of_ascii "i64 ' ' MetaData `line1
+line2` options [ ] packet int32")).
+Eval vm_compute in ("<<<M796>>>" ++ check (runes_of_ascii "options
+    {
+lengthOf =  char[
+    4294967296 ]; }")).
+Eval vm_compute in ("<<<M2712>>>" ++ check (runes_of_ascii "' ' int8 i16 i32 root int16 as } 10 true { ] root")).
+Eval vm_compute in ("<<<M304>>>" ++ check (runes_of_ascii "// " ++ [128512]%N ++ runes_of_ascii " emoji
+MetaData
+    lengthOf	{ int16
+asx,}")).
+Eval vm_compute in ("<<<M1341>>>" ++ check (runes_of_ascii "options {BodyLength // " ++ [27880; 37322]%N ++ runes_of_ascii "
+=
+    4294967296	}")).
+Eval vm_compute in ("<<<M1812>>>" ++ check (runes_of_ascii "options{  lengthOf =//x
+i16;
+    BodyLengt")).
+Eval vm_compute in ("<<<M2371>>>" ++ check (runes_of_ascii "MetaData
+Foo {Header //
+pack pack ,	} 	 ")).
+Eval vm_compute in ("<<<M3228>>>" ++ check (runes_of_ascii "root packet u128 {
 // c
-packet u128 { chars `it's` , }")).
-Eval vm_compute in ("<<<M1631>>>" ++ check (runes_of_ascii "packet A {
-    u8 x `a
-        b`,
+chars `doc` , }")).
+Eval vm_compute in ("<<<M787>>>" ++ check (runes_of_ascii "MetaData	pack
+{ // trailing space 
 }")).
-Eval vm_compute in ("<<<M953>>>" ++ check (runes_of_ascii "root packet A {
+Eval vm_compute in ("<<<M2395>>>" ++ check (runes_of_ascii "MetaData
+Foo {Header //
+pack ,	}" ++ [127]%N ++ runes_of_ascii " 	 ")).
+Eval vm_compute in ("<<<M2649>>>" ++ check (runes_of_ascii "root packet A { } root packet B { }")).
+Eval vm_compute in ("<<<M3785>>>" ++ check (runes_of_ascii "packet
+
+    A  { u8
+	x `a
+b`,} ")).
+Eval vm_compute in ("<<<M2733>>>" ++ check ([65533; 26; 65533; 65533]%N ++ runes_of_ascii "G'0=*" ++ [65533; 65533]%N ++ runes_of_ascii "4A" ++ [12; 16; 448; 65533; 65533]%N ++ runes_of_ascii "ZV" ++ [65533]%N ++ runes_of_ascii "R" ++ [65533; 65533; 65533; 15; 65533; 65533; 127]%N ++ runes_of_ascii "6PD")).
+Eval vm_compute in ("<<<M3029>>>" ++ check (runes_of_ascii "root packet A {
     u8 x `
-x`,
+`,
 }")).
-Eval vm_compute in ("<<<M1043>>>" ++ check (runes_of_ascii "packet A {
- u8 x `d" ++ [8203]%N ++ runes_of_ascii "`, // c" ++ [8203]%N ++ runes_of_ascii "
+Eval vm_compute in ("<<<M4062>>>" ++ check (runes_of_ascii "options {
+    int = zchar[1]
 }")).
-Eval vm_compute in ("<<<M1164>>>" ++ check (runes_of_ascii "
-// c
-root packet pack { }")).
-Eval vm_compute in ("<<<M1059>>>" ++ check (runes_of_ascii "packet A {
-}// a// b")).
-Eval vm_compute in ("<<<M977>>>" ++ check (runes_of_ascii "// c" ++ [12288]%N ++ runes_of_ascii "
-packet A {
-}")).
-Eval vm_compute in ("<<<M1078>>>" ++ check (runes_of_ascii "packet A { // a
+Eval vm_compute in ("<<<M2766>>>" ++ check (runes_of_ascii "yLP*Q*,_|>^~dti}RS[8 ^K`SUgd")).
+Eval vm_compute in ("<<<M2864>>>" ++ check (runes_of_ascii "Oia*""9c2dIS9]`'`6Uf$Mb""maX?")).
+Eval vm_compute in ("<<<M1106>>>" ++ check (runes_of_ascii "// " ++ [27880; 37322]%N ++ runes_of_ascii "
+ // trailing space ")).
+Eval vm_compute in ("<<<M4221>>>" ++ check (runes_of_ascii "// " ++ [27880; 37322]%N ++ runes_of_ascii "
+// trailing space ")).
+Eval vm_compute in ("<<<M2784>>>" ++ check (runes_of_ascii "as = [ u64 i64 i16 i64")).
+Eval vm_compute in ("<<<M1021>>>" ++ check (runes_of_ascii "
+packet Pad { }
+//x
+")).
+Eval vm_compute in ("<<<M2724>>>" ++ check (runes_of_ascii """{,}"" false options")).
+Eval vm_compute in ("<<<M3112>>>" ++ check (runes_of_ascii "packet A {
+}
+// c" ++ [5760]%N)).
+Eval vm_compute in ("<<<M985>>>" ++ check (runes_of_ascii "packet x_y_z {
+}
+")).
+Eval vm_compute in ("<<<M3198>>>" ++ check (runes_of_ascii "options { // a
  }")).
-Eval vm_compute in ("<<<M233>>>" ++ check (runes_of_ascii "
-options { }
-")).
-Eval vm_compute in ("<<<M1701>>>" ++ check (runes_of_ascii "// c" ++ [160]%N ++ runes_of_ascii "
-")).
-Eval vm_compute in ("<<<M1945>>>" ++ check (runes_of_ascii "
-")).
+Eval vm_compute in ("<<<M2714>>>" ++ check (runes_of_ascii "QQ" ++ [65533; 1731]%N ++ runes_of_ascii "V" ++ [65533; 65533; 65533]%N ++ runes_of_ascii "b" ++ [65533; 65533; 65533; 65533; 65533]%N ++ runes_of_ascii "")).
+Eval vm_compute in ("<<<M185>>>" ++ check (runes_of_ascii "
+ // a // b")).
+Eval vm_compute in ("<<<M2493>>>" ++ check (runes_of_ascii "@centerPad")).
+Eval vm_compute in ("<<<M2472>>>" ++ check (runes_of_ascii "Metadata")).
+Eval vm_compute in ("<<<M2449>>>" ++ check (runes_of_ascii "uint88")).
+Eval vm_compute in ("<<<M2492>>>" ++ check (runes_of_ascii "@left")).
+Eval vm_compute in ("<<<M2450>>>" ++ check (runes_of_ascii "uint")).
+Eval vm_compute in ("<<<M2461>>>" ++ check (runes_of_ascii "asx")).
+Eval vm_compute in ("<<<M2447>>>" ++ check (runes_of_ascii "u8")).
+Eval vm_compute in ("<<<M2684>>>" ++ check (runes_of_ascii "x")).
